@@ -1,18 +1,28 @@
 """C04 — DTLS connects only to the fingerprinted peer; both sides derive matching keys.
 
-Three correspondences (real code vs compiled Lean model `Model/Dtls.lean`) and, for each, the property
-evaluated on the implementation alone (oracle):
+Correspondences (real code vs compiled Lean model `Model/Dtls.lean`) and, for each, the property evaluated on
+the implementation alone (oracle):
 
-* identity : real `RTCDtlsTransport._validate_peer_identity` driven with a stub `_ssl` whose peer
-             certificate returns generated digests, on generated fingerprint lists;
-* keys     : real `SRTPProtectionProfile.get_key_and_salt` and real `_setup_srtp` (stub `_ssl`, recording
-             `Policy`/`Session`) on random keying material, both roles, all profile lists;
-* pair     : REAL DTLS transport pairs over an in-process dummy ICE transport: every answer of OpenSSL /
-             libsrtp observed at the call boundary is fed to the Lean automaton, which must predict exactly
-             the observed effects (state changes, role, exporter length, SRTP keys, deliveries, refusals);
-             the oracle checks connected/failed and delivered/discarded against the property text;
+* identity : SEQUENCES of validations in one process: real `_validate_peer_identity` of a fresh transport on a REAL
+             completed pyOpenSSL connection whose peer certificate is a REAL x509 certificate of a pool (library-made
+             ones, pairs of distinct certificates sharing serial number/subject/issuer/validity, same key re-issued,
+             re-signed, RSA …), and `RTCCertificate.getFingerprints()`; the stateless model / policy answers each step;
+* pair     : REAL DTLS transport pairs over an in-process datagram link, optionally AFTER earlier connections in the
+             same process (legitimate peer first, then a look-alike certificate): every answer of OpenSSL / libsrtp
+             observed at the call boundary is fed to the Lean automaton, which must predict exactly the observed
+             effects; traffic = data / RTCP / RTP on several SSRCs with re-ordered, repeated, backward-jumping and
+             wrapping sequence numbers, bit flips and overtaking in transit; the oracle checks connected/failed and,
+             PER PACKET, delivered/discarded against the property text;
 * intruder : a raw pyOpenSSL peer with a NON-signalled certificate coalesces application data with its last
-             handshake flight (the defect fixed by fixes/C04-data-before-identity-check.patch).
+             handshake flight (defect fixed by fixes/C04-data-before-identity-check.patch), also after a legitimate
+             connection with the certificate whose serial number it copies;
+* srtp     : the two libsrtp sessions the real `_setup_srtp` creates on both ends of a real completed handshake,
+             long RTP index sequences sender.protect → receiver.unprotect, vs the replay-window model `Link.run`;
+* keys     : real `SRTPProtectionProfile.get_key_and_salt` and real `_setup_srtp` (chosen selected-profile / exporter
+             answers, real `Policy` objects read back) on random keying material, both roles, all profile lists.
+
+A failing case of a sequence component is confirmed and shrunk in a fresh copy of a process image forked before the
+first case ran (harness/c04zygote.py), so that the reported input reproduces on its own.
 """
 from __future__ import annotations
 
@@ -27,13 +37,17 @@ DRIVERS = ["Dtls"]
 MANIFEST = {
     "technique": "Lean 4 theorems about an executable model of the decision logic of RTCDtlsTransport (fingerprint policy, "
                  "key/salt slicing and role switch, start()/pump automaton with OpenSSL/libsrtp answers as inputs) + function-level "
-                 "differential runs + trace acceptance of real in-process DTLS pairs + implementation-side oracle",
+                 "differential runs on real certificates / real completed handshakes, as sequences in one process + trace acceptance "
+                 "of real in-process DTLS pairs (also one after another) + replay-window model of the two SRTP sessions + "
+                 "implementation-side oracle evaluated per validation and per packet",
     "text": "The fingerprint policy (accepted iff at least one supported-hash fingerprint and every supported one equals the certificate "
             "digest, case-insensitively; invariant under recasing, permutation and unsupported entries), the RFC 5764 key partition "
             "(client-tx = server-rx, server-tx = client-rx for every profile of the regenerated table) and the automaton facts (CONNECTED, "
             "SRTP keys and every delivery to a data/RTP/RTCP receiver only after handshake-ok ∧ fingerprints accepted ∧ profile from the "
             "local list; FAILED terminal and silent; sends refused unless CONNECTED; unauthenticated packets dropped) are Lean theorems "
-            "for all inputs. The model is tied to the code by running the real methods and real DTLS pairs against the compiled model.",
+            "for all inputs; so are: what getFingerprints() signals is accepted for that certificate, and a packet the sending SRTP "
+            "session lets through is never 'too old' for a receiving session whose replay window is not narrower (any order, repeats, "
+            "losses). The model is tied to the code by running the real methods and real DTLS pairs against the compiled model.",
     "note": "Partial by nature: that equal exporter output arises on both sides, that matching keys decrypt and that altered packets "
             "fail authentication is OpenSSL's / libsrtp's job; those are observed (pair component), not proved.",
     "design_ref": "DESIGN.md §2 C04",
@@ -42,8 +56,13 @@ ASSUMPTIONS = [
     "OpenSSL: do_handshake succeeds only with the holder of the private key of the certificate returned by get_peer_certificate; "
     "export_keying_material returns the same bytes on both sides; a record that fails its MAC makes recv raise SSL.Error "
     "(model input `SslRecv.error`) — observed on every pair run, not proved",
-    "libsrtp: unprotect succeeds with the original plaintext iff the packet was protected with the mirror key and is unaltered "
-    "(model input `Unprotect`) — observed on every pair run, not proved",
+    "libsrtp: unprotect succeeds with the original plaintext iff the packet was protected with the mirror key, is unaltered and "
+    "passes the receiving session's replay check (model input `Unprotect`) — observed on every pair run, not proved; the replay "
+    "check itself is modelled on extended packet indexes (`Rdb.check`, window sizes read from the real Policy objects) and "
+    "compared with the real sessions on every `srtp` case; generated streams keep the receiver able to infer the roll-over "
+    "counter (first packet of a stream unaltered, span < 2^15)",
+    "a packet whose index the receiver has already delivered (plain retransmission) and a packet the SENDING session refuses to "
+    "encrypt (pylibsrtp.Error escapes `_send_rtp`: visible to the caller) are not counted as 'sent and lost'",
     "str.lower() agrees with ASCII lower-casing wherever it matters: no non-ASCII code point lower-cases into a string over "
     "[0-9a-f:] or over the characters of the supported algorithm names (checked by brute force over all code points on every "
     "run, component `identity`)",
@@ -56,16 +75,22 @@ TRUSTED_EXTRA = [
     "OpenSSL (DTLS handshake, certificate possession proof, SRTP profile negotiation, exporter, record MAC) and libsrtp "
     "(protect/unprotect, authentication, replay window) are not modelled: their answers are inputs of the Lean automaton",
     "pyOpenSSL / pylibsrtp / cryptography bindings; x509.Certificate.fingerprint",
-    "harness instrumentation of the real transport (SSL.Connection / Session / Policy shims in the module namespace, per-instance "
-    "wrappers of _recv_next, _set_state, _setup_srtp, _handle_rtp_data, _handle_rtcp_data)",
+    "harness instrumentation of the real transport (SSL.Connection / Session shims in the module namespace, per-instance "
+    "wrappers of _recv_next, _set_state, _handle_rtp_data, _handle_rtcp_data); the certificate pool and the in-memory handshakes "
+    "of harness/c04pool.py (cryptography / pyOpenSSL); os.fork for the fresh-process confirmation of failing sequences",
 ]
-RULE = ("identity: fingerprint lists built from subsets/permutations/duplicates of the supported hashes with per-entry recasing of "
-        "algorithm and value, corruption (digit flip, truncation, missing colons, other algorithm's digest, empty), unsupported / "
-        "near-miss / non-ASCII algorithm names, empty list; digests random (2..64 bytes) or of a real certificate. keys: real and "
-        "synthetic (key,salt) lengths × exact/short/long/empty material × idx; _setup_srtp over all ordered profile sublists × role × "
-        "selected name (member, non-member, empty). pair: ordered profile sublists on each side × role assignment × fingerprint "
-        "variants per side × data-receiver presence × early SRTP-looking/junk datagrams queued before the handshake, then data/RTP/RTCP "
-        "traffic with bit flips in transit. distinct = distinct case JSON")
+RULE = ("identity: sequences of 1..6 steps (validate certificate i of the real pool against a fingerprint list / getFingerprints of i); "
+        "lists built from subsets/permutations/duplicates of the supported hashes with per-entry recasing of algorithm and value, "
+        "corruption (digit flip, truncation, missing colons, other algorithm's digest, empty, U+FB00), unsupported / near-miss / "
+        "non-ASCII algorithm names, empty list, values taken from the certificate itself, from a certificate sharing its serial "
+        "number/subject/issuer/validity or its key, or from an unrelated one. keys: real and synthetic (key,salt) lengths × "
+        "exact/short/long/empty material × idx; _setup_srtp over all ordered profile sublists × role × selected name (member, "
+        "non-member, empty). pair: ordered profile sublists on each side × role assignment × certificate pair × fingerprint variants "
+        "per side (true digests, the peer's own getLocalParameters(), another certificate's) × data-receiver presence × early "
+        "SRTP-looking/junk datagrams × optional earlier connection(s) in the same process (look-alike certificate, same parties "
+        "twice), then data/RTCP/RTP traffic: per (side, SSRC of 3) extended sequence numbers +1 / forward jumps / backward jumps "
+        "1..1025 incl. 127,128,129,1023,1024 / retransmissions / start values around 2^15 and 2^16, bit flips and overtaking in "
+        "transit. srtp: 20..2000 packets per case on 3 SSRCs, same moves, both directions, every profile. distinct = distinct case JSON")
 
 LABEL = b"EXTRACTOR-dtls_srtp"
 PROPERTY_ALGS = ("sha-256", "sha-384", "sha-512")  # literal from the property text
@@ -97,8 +122,7 @@ def enc_digests(dg: dict) -> str:
 
 
 def colon_hex(b: bytes) -> str:
-    h = b.hex().upper()
-    return ":".join(h[i:i + 2] for i in range(0, len(h), 2))
+    return b.hex(":").upper() if b else ""
 
 
 _FOLD = {c: c + 32 for c in range(65, 91)}
@@ -122,18 +146,19 @@ def policy_accepts(fps, digests_by_alg: dict) -> bool:
 # shared stubs
 # ----------------------------------------------------------------------------------------------
 
-class StubCert:
-    def __init__(self, by_hash_name):
-        self.by = by_hash_name
-
-    def fingerprint(self, algo):
-        return self.by[algo.name]
-
-
 class StubSsl:
-    def __init__(self, cert=None, selected=b"", material=b""):
+    """Chosen answers for the three calls whose results are INPUTS of the decision logic; everything else is passed
+    through to a genuine completed pyOpenSSL connection, so that code touching other parts of the API keeps working."""
+    def __init__(self, cert=None, selected=b"", material=b"", real=None):
         self.cert, self.selected, self.material = cert, selected, material
         self.export_calls = []
+        self._real = real
+
+    def __getattr__(self, k):
+        real = self.__dict__.get("_real")
+        if real is None or k.startswith("__"):
+            raise AttributeError(k)
+        return getattr(real, k)
 
     def get_peer_certificate(self, as_cryptography=False):
         return self.cert
@@ -152,14 +177,6 @@ class DummyIce:
 
 
 _CACHE: dict = {}
-
-
-def _bare_transport():
-    M = _M()
-    if "bare" not in _CACHE:
-        _CACHE["cert"] = M.RTCCertificate.generateCertificate()
-        _CACHE["bare"] = M.RTCDtlsTransport(DummyIce(), [_CACHE["cert"]])
-    return _CACHE["bare"]
 
 
 def _check_casefold_assumption() -> str | None:
@@ -182,7 +199,7 @@ def _check_casefold_assumption() -> str | None:
 
 
 # ----------------------------------------------------------------------------------------------
-# component 1: _validate_peer_identity
+# component 1: _validate_peer_identity / getFingerprints on REAL certificates, as SEQUENCES in one process
 # ----------------------------------------------------------------------------------------------
 
 def recase(rng, s: str, mode: str) -> str:
@@ -222,138 +239,384 @@ def corrupt(rng, v: str, how: str, other: str) -> str:
     if how == "other":
         return other
     if how == "ligature":
-        return v.replace("FF", "\ufb00", 1) if "FF" in v else v[:-1] + ("0" if v[-1:] != "0" else "1")
+        return v.replace("FF", "ﬀ", 1) if "FF" in v else v[:-1] + ("0" if v[-1:] != "0" else "1")
     if how == "unicode":
         return v[:1] + "ı" + v[2:] if len(v) > 1 else "ſ"
     return v + "x"
 
 
-class Identity(Component):
+def _raised_in_harness(exc) -> bool:
+    """True when the innermost frame of the traceback is harness code: the harness could not DRIVE the
+    implementation (an internal name it relies on is gone) — a broken correspondence, not a property failure."""
+    tb = exc.__traceback__
+    if tb is None:
+        return True
+    while tb.tb_next is not None:
+        tb = tb.tb_next
+    fn = tb.tb_frame.f_code.co_filename.replace("\\", "/")
+    return "/harness/" in fn
+
+
+class HarnessCannotDrive(Exception):
+    pass
+
+
+def _describe_cert(i):
+    e = _pool()["certs"][i]
+    if e["of"] is None:
+        return f"#{i} ({e['kind']})"
+    what = {"clone": "different key; same serial number, subject, issuer, validity", "rekey": "same key, other serial number/subject",
+            "resigned": "same key and to-be-signed bytes, signed again"}[e["kind"]]
+    return f"#{i} ({e['kind']} of #{e['of']}: {what})"
+
+
+def _pool():
+    from harness import c04pool
+    return c04pool.pool(_M())
+
+
+# ---- hermetic confirmation of failing cases (see harness/c04zygote.py) -----------------------------
+
+_ZYGOTE: dict = {}
+
+
+def _hermetic_handler(req):
+    name, case = req
+    comp = {c.name: c for c in components("quick")}[name]
+    return comp._run_local(case)
+
+
+def _ensure_zygote():
+    """Fork the pristine process image (pool built, no aiortc transport code run yet). Called at the start of the first
+    component, before any case runs in this process."""
+    if "z" in _ZYGOTE:
+        return _ZYGOTE["z"]
+    import os
+    z = None
+    if os.environ.get("VERIF_C04_NO_FORK") != "1" and hasattr(os, "fork"):
+        try:
+            from harness import c04pool, c04zygote
+            c04pool.handshakes(_M())
+            z = c04zygote.Zygote(_hermetic_handler)
+        except Exception:
+            z = None
+    _ZYGOTE["z"] = z
+    return z
+
+
+class SeqComponent(Component):
+    """A component whose cases are sequences run in ONE process. Bulk: in the check process, one case after the other.
+    A case that fails there is run again in a fresh copy of the pristine process image: if it fails there too, that
+    (reproducible) run is what is reported and shrunk; if it only fails after the earlier cases of the run, it is reported
+    as such only when no reproducible failing case exists."""
+
+    def _run_local(self, case):           # -> picklable result of running `case` in THIS process
+        raise NotImplementedError
+
+    def _store(self, case, result) -> str:  # keep what the oracle needs, return the canonical output string
+        raise NotImplementedError
+
+    def _oracle_raw(self, case, impl_out):
+        return None
+
+    def _snapshot(self, case):
+        return None
+
+    def _restore(self, case, snap):
+        pass
+
+    HERMETIC_BUDGET_S = 30.0   # total time spent in fresh-process runs (confirmation + shrinking) per component
+
+    def impl(self, case):
+        z = _ZYGOTE.get("z")
+        if getattr(self, "_bulk", False) or z is None:
+            return self._store(case, self._run_local(case))
+        import time
+        t0 = time.time()
+        try:
+            return self._store(case, z.call((self.name, case)))
+        finally:
+            self._herm_spent = getattr(self, "_herm_spent", 0.0) + time.time() - t0
+
+    def _shrink(self, case):
+        return []
+
+    def shrink(self, case):
+        for cand in self._shrink(case):
+            if getattr(self, "_herm_spent", 0.0) > self.HERMETIC_BUDGET_S:
+                return
+            yield cand
+
+    def impl_many(self, cases):
+        z = _ensure_zygote()
+        self._bulk = True
+        try:
+            outs = Component.impl_many(self, cases)
+        finally:
+            self._bulk = False
+        self._leak, self._confirmed = {}, False
+        if z is not None and len(cases) > 1:
+            tested = 0
+            for i, (c, o) in enumerate(zip(cases, outs)):
+                try:
+                    f = self._oracle_raw(c, o)
+                except Exception:
+                    f = None
+                if not f:
+                    continue
+                tested += 1
+                snap = self._snapshot(c)
+                try:
+                    ho = self.impl(c)
+                    hf = self._oracle_raw(c, ho)
+                except Exception:
+                    self._restore(c, snap)
+                    break
+                if hf:
+                    outs[i] = ho
+                    self._confirmed = True
+                    break
+                self._restore(c, snap)
+                self._leak[case_key(c)] = o
+                if tested >= 8:
+                    break
+        return outs
+
+    def oracle(self, case, impl_out):
+        f = self._oracle_raw(case, impl_out)
+        if f and getattr(self, "_leak", {}).get(case_key(case)) == impl_out:
+            if self._confirmed:
+                return None  # a reproducible failing case of the same run is reported instead
+            return f + (" [observed only after the earlier cases of this run had executed in the same process: the case alone, in a "
+                        "fresh process, passes — state is carried over between validations/connections]")
+        return f
+
+
+class Identity(SeqComponent):
+    """A case is a SEQUENCE of steps run in one process on fresh transports:
+    {"k": "v", "cert": i, "spec": [[alg-as-written, how, value-case, base-alg, src], …]} — `_validate_peer_identity` on a
+        real completed SSL connection whose peer certificate is pool certificate i; each signalled value is the digest of
+        pool certificate `src` (i itself, a twin sharing its serial number/subject/…, or an unrelated one), optionally corrupted;
+    {"k": "l", "cert": i} — `RTCCertificate(i).getFingerprints()` (what this side would signal for certificate i).
+    The model and the oracle are stateless and answer every step on its own."""
     name = "identity"
     theorems = ["fingerprint_policy", "fingerprint_policy_real", "rejected_without_supported", "rejected_on_mismatch",
                 "accepted_perm", "accepted_recase", "accepted_unsupported_irrelevant", "accepted_ascii_recase", "algs_const",
-                "lower_colonHex_injective", "accepted_pins_digest"]
+                "lower_colonHex_injective", "accepted_pins_digest", "local_fingerprints_accepted"]
+
+    def _twins(self):
+        return [(a, b) for a, b, _ in _pool()["twins"]]
 
     def corpus(self):
-        d = {"sha-256": "aa01", "sha-384": "bb02", "sha-512": "cc03"}
-        return [
-            {"dg": d, "fps": []},
-            {"dg": d, "fps": [["sha-256", "AA:01"]]},
-            {"dg": d, "fps": [["SHA-256", "aa:01"]]},
-            {"dg": d, "fps": [["sha-256", "AA:01"], ["sha-384", "BB:03"]]},
-            {"dg": d, "fps": [["sha-1", "AA:01"]]},
-            {"dg": d, "fps": [["sha-1", "zz"], ["sha-512", "Cc:03"]]},
-            {"dg": d, "fps": [["sha-256", "AA:01"], ["sha-256", "AA:02"]]},
-            {"dg": d, "fps": [["sha-256", "AA01"]]},
-            {"dg": {"sha-256": "", "sha-384": "00", "sha-512": "0a0b"}, "fps": [["sha-256", ""]]},
-            {"dg": {"sha-256": "ff01", "sha-384": "bb02", "sha-512": "cc03"}, "fps": [["sha-256", "\ufb00:01"]]},
-            {"dg": "real", "fps_real": [["sha-256", "ok", "upper"], ["SHA-512", "ok", "lower"]]},
+        g = lambda c, alg="sha-256", how="ok", vm="upper", src=None: [alg, how, vm, alg.lower(), c if src is None else src]
+        out = [
+            {"steps": [{"k": "v", "cert": 0, "spec": []}]},
+            {"steps": [{"k": "v", "cert": 0, "spec": [g(0)]}]},
+            {"steps": [{"k": "v", "cert": 0, "spec": [g(0, "SHA-256", "ok", "lower")]}]},
+            {"steps": [{"k": "v", "cert": 0, "spec": [g(0), g(0, "sha-384", "flip")]}]},
+            {"steps": [{"k": "v", "cert": 0, "spec": [["sha-1", "ok", "asis", "sha-256", 0]]}]},
+            {"steps": [{"k": "v", "cert": 0, "spec": [["sha-1", "x", "asis", "sha-256", 0], g(0, "sha-512", "ok", "mixed")]}]},
+            {"steps": [{"k": "v", "cert": 0, "spec": [g(0), g(0, "sha-256", "flip")]}]},
+            {"steps": [{"k": "v", "cert": 0, "spec": [g(0, "sha-256", "nocolon")]}]},
+            {"steps": [{"k": "v", "cert": 8, "spec": [g(8, "sha-256", "ligature", "asis")]}]},
+            {"steps": [{"k": "v", "cert": 10, "spec": [g(10), g(10, "SHA-512", "ok", "lower")]}]},
         ]
+        # accept the original, then the twin is presented against the ORIGINAL's fingerprints (and the other way round)
+        for a, b in self._twins():
+            for x, y in ((a, b), (b, a)):
+                out.append({"steps": [{"k": "v", "cert": x, "spec": [g(x)]}, {"k": "v", "cert": y, "spec": [g(y, src=x)]},
+                                      {"k": "v", "cert": y, "spec": [g(y)]}, {"k": "v", "cert": x, "spec": [g(x)]}]})
+                out.append({"steps": [{"k": "l", "cert": x}, {"k": "v", "cert": y, "spec": [g(y, "sha-384", src=x), g(y, "sha-512", src=x)]},
+                                      {"k": "l", "cert": y}]})
+        out.append({"steps": [{"k": "l", "cert": 0}, {"k": "l", "cert": 4}, {"k": "l", "cert": 0}]})
+        return out
+
+    def _gen_step(self, rng, algs, cert, src, good_bias):
+        k = rng.choice([0, 1, 1, 2, 2, 3, 3, 4, 5])
+        entries = []
+        for _ in range(k):
+            kind = "good" if rng.random() < good_bias else rng.choice(["good", "bad", "unsupported", "unsupported-goodval"])
+            a = rng.choice(algs) if algs else "sha-256"
+            amode = rng.choice(["asis", "upper", "lower", "mixed", "random"])
+            vmode = rng.choice(["asis", "upper", "lower", "mixed", "random"])
+            how = "ok"
+            if kind == "bad":
+                how = rng.choice(["flip", "flip", "trunc", "trunc3", "nocolon", "append", "empty", "space", "other", "unicode", "x", "ligature"])
+            if kind.startswith("unsupported"):
+                name = rng.choice(UNSUPPORTED)
+                how = "ok" if kind.endswith("goodval") else rng.choice(["flip", "empty", "ok"])
+                entries.append([name, how, vmode, a, src])
+            else:
+                entries.append([recase(rng, a, amode), how, vmode, a, src])
+        if rng.random() < 0.3:
+            rng.shuffle(entries)
+        return {"k": "v", "cert": cert, "spec": entries}
 
     def cases(self, rng, tier):
-        n = 3000 if tier == "quick" else 100000
-        out = []
+        n = 1800 if tier == "quick" else 50000
         M = _M()
         algs = list(M.X509_DIGEST_ALGORITHMS.keys())
+        ncert = len(_pool()["certs"])
+        twin_of = {}
+        for a, b in self._twins():
+            twin_of.setdefault(a, []).append(b)
+            twin_of.setdefault(b, []).append(a)
+        out = []
         for _ in range(n):
-            real = rng.random() < 0.1
-            if real:
-                dg = "real"
+            steps = []
+            m = rng.random()
+            if m < 0.35:
+                # one validation (the old single-shot stream), every certificate kind
+                c = rng.randrange(ncert)
+                steps.append(self._gen_step(rng, algs, c, c, 0.55))
+            elif m < 0.65:
+                # a certificate is seen (validated or signalled locally), then a certificate sharing attributes with it is
+                # presented against the FIRST one's fingerprints; then both again with their own
+                a = rng.choice(list(twin_of))
+                b = rng.choice(twin_of[a])
+                first = {"k": "l", "cert": a} if rng.random() < 0.3 else self._gen_step(rng, algs, a, a, 0.9)
+                steps.append(first)
+                if rng.random() < 0.3:
+                    steps.append({"k": "l", "cert": rng.choice([a, b])})
+                steps.append(self._gen_step(rng, algs, b, a, 0.9))
+                for c in rng.sample([a, b], rng.choice([0, 1, 2])):
+                    steps.append(self._gen_step(rng, algs, c, c, 0.8))
             else:
-                ln = rng.choice([1, 2, 2, 3, 4, 32, 48, 64])
-                dg = {a: bytes(rng.randrange(256) for _ in range(ln if ln < 32 else {0: 32, 1: 48, 2: 64}[i % 3])).hex()
-                      for i, a in enumerate(algs)}
-                if rng.random() < 0.05:
-                    dg[algs[0]] = dg[algs[1]]  # two algorithms with the same digest
-                if rng.random() < 0.15:
-                    a0 = rng.choice(algs)
-                    dg[a0] = "ff" + dg[a0][2:]  # so that the 'ﬀ'.upper() == 'FF' path is exercised
-            k = rng.choice([0, 1, 1, 2, 2, 3, 3, 4, 5])
-            entries = []
-            for _ in range(k):
-                kind = rng.choice(["good", "good", "good", "good", "bad", "unsupported", "unsupported-goodval"])
-                a = rng.choice(algs) if algs else "sha-256"
-                amode = rng.choice(["asis", "upper", "lower", "mixed", "random"])
-                vmode = rng.choice(["asis", "upper", "lower", "mixed", "random"])
-                how = "ok"
-                if kind == "bad":
-                    how = rng.choice(["flip", "flip", "trunc", "trunc3", "nocolon", "append", "empty", "space", "other", "unicode", "x", "ligature"])
-                if kind.startswith("unsupported"):
-                    name = rng.choice(UNSUPPORTED)
-                    how = "ok" if kind.endswith("goodval") else rng.choice(["flip", "empty", "ok"])
-                    entries.append([name, how, vmode, a])
-                else:
-                    entries.append([recase(rng, a, amode), how, vmode, a])
-            if rng.random() < 0.3:
-                rng.shuffle(entries)
-            out.append({"dg": dg, "spec": entries, "r": rng.randrange(1 << 30)})
+                for _ in range(rng.choice([2, 2, 3, 4, 6])):
+                    c = rng.randrange(ncert)
+                    r = rng.random()
+                    if r < 0.15:
+                        steps.append({"k": "l", "cert": c})
+                    else:
+                        src = c if r < 0.7 else rng.choice(twin_of.get(c, [c]) + [rng.randrange(ncert)])
+                        steps.append(self._gen_step(rng, algs, c, src, 0.7))
+            out.append({"steps": steps, "r": rng.randrange(1 << 30)})
         return out
 
-    # resolve a case to (digests_by_alg: dict[str, bytes], fps: list[(alg, value)])
+    # step -> ("v", cert, [(alg, value)]) | ("l", cert, None); symbolic, so that a replay file works in another process
     def _resolve(self, case):
+        memo = self.__dict__.setdefault("_memo", {})
+        hit = memo.get(id(case))
+        if hit is not None and hit[0] is case:
+            return hit[1]
+        out = self._resolve_uncached(case)
+        if len(memo) > 200000:
+            memo.clear()
+        memo[id(case)] = (case, out)
+        return out
+
+    def _resolve_uncached(self, case):
         import random
-        M = _M()
-        if case["dg"] == "real":
-            _bare_transport()
-            cert = _CACHE["cert"]._cert
-            dg = {a: cert.fingerprint(h) for a, h in M.X509_DIGEST_ALGORITHMS.items()}
-        else:
-            dg = {a: bytes.fromhex(h) for a, h in case["dg"].items()}
-        if "fps" in case:
-            return dg, [tuple(x) for x in case["fps"]]
-        rng = random.Random(case.get("r", 0))
-        fps = []
-        keys = list(dg.keys())
-        for ent in case.get("spec", case.get("fps_real", [])):
-            if len(ent) == 3:
-                name, how, vmode = ent
-                base = name.lower()
-            else:
-                name, how, vmode, base = ent
-            good = colon_hex(dg.get(base, b"\x00"))
-            other = colon_hex(dg[keys[(keys.index(base) + 1) % len(keys)]]) if base in keys and keys else "00"
-            v = good if how == "ok" else corrupt(rng, good, how, other)
-            fps.append((name, recase(rng, v, vmode)))
-        return dg, fps
+        certs = _pool()["certs"]
+        algs = list(PROPERTY_ALGS)
+        out = []
+        for n, st in enumerate(case["steps"]):
+            if st["k"] == "l":
+                out.append(("l", st["cert"], None))
+                continue
+            rng = random.Random(case.get("r", 0) * 131 + n)
+            fps = []
+            for name, how, vmode, base, src in st["spec"]:
+                dg = certs[src]["dg"]
+                good = colon_hex(dg.get(base, b"\x00"))
+                other = colon_hex(dg[algs[(algs.index(base) + 1) % len(algs)]]) if base in algs else "00"
+                v = good if how == "ok" else corrupt(rng, good, how, other)
+                fps.append((name, recase(rng, v, vmode)))
+            out.append(("v", st["cert"], fps))
+        return out
 
     def model_line(self, case):
-        dg, fps = self._resolve(case)
-        return f"dtls validate {enc_digests(dg)} {enc_fps(fps)}"
+        certs = _pool()["certs"]
+        toks = []
+        for k, c, fps in self._resolve(case):
+            toks += ["L", enc_digests(certs[c]["dg"])] if k == "l" else [enc_digests(certs[c]["dg"]), enc_fps(fps)]
+        return "dtls validateseq " + " ".join(toks)
 
-    def impl(self, case):
+    def _validate_once(self, cert_i, fps):
+        """Real `_validate_peer_identity` of a FRESH transport on a real completed SSL connection."""
+        from harness import c04pool
         M = _M()
-        dg, fps = self._resolve(case)
-        t = _bare_transport()
-        if case["dg"] == "real":
-            cert = _CACHE["cert"]._cert
-        else:
-            cert = StubCert({M.X509_DIGEST_ALGORITHMS[a].name: b for a, b in dg.items()})
-        t._ssl = StubSsl(cert=cert)
-        t._state = M.State.CONNECTING
+        conn, local = c04pool.peer_connection(M, cert_i)
         try:
-            t._validate_peer_identity(M.RTCDtlsParameters(
-                fingerprints=[M.RTCDtlsFingerprint(algorithm=a, value=v) for a, v in fps]))
-            out = "1" if t._state == M.State.CONNECTING else ("0" if t._state == M.State.FAILED else "state " + t.state)
+            t = M.RTCDtlsTransport(DummyIce(), [_pool()["certs"][local]["rtc"]])
+            t._ssl = conn
+            before = t.state
+            params = M.RTCDtlsParameters(fingerprints=[M.RTCDtlsFingerprint(algorithm=a, value=v) for a, v in fps])
+            validate = t._validate_peer_identity
         except Exception as exc:
-            out = "crash " + type(exc).__name__
-        finally:
-            t._ssl = None
-            t._state = M.State.NEW
-        return out
+            raise HarnessCannotDrive(f"{type(exc).__name__}: {exc}")
+        try:
+            validate(params)
+        except Exception as exc:
+            if _raised_in_harness(exc):
+                raise HarnessCannotDrive(f"{type(exc).__name__}: {exc}")
+            return "crash:" + type(exc).__name__
+        after = t.state
+        return "1" if after == before else ("0" if after == "failed" else "state:" + after)
 
-    def oracle(self, case, impl_out):
+    def _local_once(self, cert_i):
+        M = _M()
+        try:
+            get = _pool()["certs"][cert_i]["rtc"].getFingerprints
+        except Exception as exc:
+            raise HarnessCannotDrive(f"{type(exc).__name__}: {exc}")
+        try:
+            got = get()
+            return ";".join(sorted(ascii_fold(f.algorithm) + "=" + ascii_fold(f.value) for f in got)) or "-"
+        except Exception as exc:
+            if _raised_in_harness(exc):
+                raise HarnessCannotDrive(f"{type(exc).__name__}: {exc}")
+            return "crash:" + type(exc).__name__
+
+    def _run_local(self, case):
+        outs = []
+        try:
+            for k, c, fps in self._resolve(case):
+                outs.append(self._local_once(c) if k == "l" else self._validate_once(c, fps))
+        except HarnessCannotDrive as exc:
+            return "HARNESS-EXC cannot drive the implementation: " + str(exc)[:160]
+        return " ".join(outs)
+
+    def _store(self, case, result):
+        return result
+
+    def _seen_before(self, steps, n):
+        return [f"step {m + 1}: certificate {_describe_cert(c)} {'signalled locally' if k == 'l' else 'validated'}"
+                for m, (k, c, _) in enumerate(steps[:n])]
+
+    def _oracle_raw(self, case, impl_out):
         bad = _check_casefold_assumption()
         if bad:
             return f"case-folding assumption broken by {bad}"
-        dg, fps = self._resolve(case)
-        want = "1" if policy_accepts(fps, dg) else "0"
-        if impl_out != want:
-            return (f"_validate_peer_identity {'accepted' if impl_out == '1' else 'rejected/' + impl_out} the list "
-                    f"{fps!r} but the fingerprint policy says {'accept' if want == '1' else 'reject'}")
+        if impl_out.startswith("HARNESS-EXC"):
+            return None  # broken correspondence (reported through the model comparison), not a failing input
+        certs = _pool()["certs"]
+        steps = self._resolve(case)
+        outs = impl_out.split(" ")
+        if len(outs) != len(steps):
+            return f"{len(steps)} steps but {len(outs)} results: {impl_out[:120]!r}"
+        for n, ((k, c, fps), got) in enumerate(zip(steps, outs)):
+            dg = certs[c]["dg"]
+            hist = "; ".join(self._seen_before(steps, n))
+            ctx = f"step {n + 1} of {len(steps)}" + (f" (earlier in this process — {hist})" if hist else "")
+            if k == "l":
+                if got.startswith("crash:"):
+                    return f"{ctx}: getFingerprints() of certificate {_describe_cert(c)} raised {got[6:]}"
+                signalled = [tuple(x.split("=", 1)) for x in got.split(";") if "=" in x]
+                if not policy_accepts(signalled, dg):
+                    return (f"{ctx}: getFingerprints() of certificate {_describe_cert(c)} returned {signalled!r}, which a peer applying "
+                            f"the fingerprint policy to this very certificate rejects (not its digests)")
+                continue
+            want = "1" if policy_accepts(fps, dg) else "0"
+            if got != want:
+                srcs = sorted({e[4] for e in case["steps"][n]["spec"]})
+                return (f"{ctx}: _validate_peer_identity {'ACCEPTED' if got == '1' else 'rejected/' + got} peer certificate "
+                        f"{_describe_cert(c)} against the list {fps!r} (values taken from certificate(s) {srcs}) but the fingerprint "
+                        f"policy says {'accept' if want == '1' else 'reject'}")
         return None
 
-    def label(self, case, impl_out):
-        dg, fps = self._resolve(case)
+    def _step_label(self, c, fps, got):
+        dg = _pool()["certs"][c]["dg"]
         sup = [(a, v) for a, v in fps if ascii_fold(a) in PROPERTY_ALGS]
         if not fps:
             k = "empty"
@@ -366,44 +629,76 @@ class Identity(Component):
                 k += "+unsupported"
             if any(a != a.lower() or v != v.upper() for a, v in sup):
                 k += "+recased"
-        return f"{impl_out}:{k}"
+        return f"{got.split(':')[0]}:{k}"
 
-    def shrink(self, case):
-        dg, fps = self._resolve(case)
-        base = {"dg": {a: b.hex() for a, b in dg.items()}, "fps": [list(x) for x in fps]}
-        for i in range(len(fps)):
-            yield dict(base, fps=base["fps"][:i] + base["fps"][i + 1:])
-        for i, (a, v) in enumerate(fps):
-            if a != a.lower():
-                yield dict(base, fps=base["fps"][:i] + [[a.lower(), v]] + base["fps"][i + 1:])
-            if v != v.upper():
-                yield dict(base, fps=base["fps"][:i] + [[a, v.upper()]] + base["fps"][i + 1:])
-        if any(len(b) > 2 for b in dg.values()) and case.get("dg") != "real":
-            # shorter digests, fingerprints re-derived where they matched
-            nd = {a: b[:2] for a, b in dg.items()}
-            nf = []
-            for a, v in fps:
-                al = a.lower()
-                if al in dg and v.upper() == colon_hex(dg[al]):
-                    nf.append([a, colon_hex(nd[al])])
-                else:
-                    nf.append([a, v[:5]])
-            yield {"dg": {a: b.hex() for a, b in nd.items()}, "fps": nf}
+    def label(self, case, impl_out):
+        if impl_out.startswith("HARNESS-EXC"):
+            return "cannot-drive"
+        steps = self._resolve(case)
+        outs = impl_out.split(" ")
+        if len(outs) != len(steps):
+            return "garbled"
+        twins = {frozenset(p) for p in self._twins()}
+        seen, imp = set(), False
+        for n, (k, c, _) in enumerate(steps):
+            if k == "v" and any(frozenset((c, e[4])) in twins and e[4] in seen for e in case["steps"][n]["spec"]):
+                imp = True
+            seen.add(c)
+        kind = "single" if len(steps) == 1 else ("seq-twin-after-original" if imp else "seq")
+        k, c, fps = steps[-1]
+        last = "local" if k == "l" else self._step_label(c, fps, outs[-1])
+        return f"{kind}:{last}"
+
+    def _shrink(self, case):
+        steps = case["steps"]
+        for i in range(len(steps)):
+            if len(steps) > 1:
+                yield dict(case, steps=steps[:i] + steps[i + 1:])
+        for i, st in enumerate(steps):
+            if st["k"] != "v":
+                continue
+            sp = st["spec"]
+            for j in range(len(sp)):
+                yield dict(case, steps=steps[:i] + [dict(st, spec=sp[:j] + sp[j + 1:])] + steps[i + 1:])
+            for j, e in enumerate(sp):
+                if e[0] != e[0].lower() or e[2] != "upper":
+                    yield dict(case, steps=steps[:i] + [dict(st, spec=sp[:j] + [[e[0].lower(), e[1], "upper", e[3], e[4]]] + sp[j + 1:])] + steps[i + 1:])
 
 
 # ----------------------------------------------------------------------------------------------
 # component 2: get_key_and_salt / _setup_srtp
 # ----------------------------------------------------------------------------------------------
 
-class RecPolicy:
-    """Stands in for pylibsrtp.Policy while `_setup_srtp` runs under the stub."""
-    def __init__(self, key=None, ssrc_type=None, srtp_profile=None, **kw):
-        self.key, self.ssrc_type, self.srtp_profile = bytes(key), ssrc_type, srtp_profile
+_SINK: list = []   # stack of lists: every SRTP session constructed by the code under test is appended to the top one
+
+
+def sessions_by_direction(sessions):
+    """(sending session, receiving session) among the captured ones, told apart by the ssrc_type of their policy —
+    not by the attribute the transport happens to store them in. None where there is not exactly one."""
+    P = _M().Policy
+    tx = [x for x in sessions if x.policy_type == P.SSRC_ANY_OUTBOUND]
+    rx = [x for x in sessions if x.policy_type == P.SSRC_ANY_INBOUND]
+    return (tx[0] if len(tx) == 1 else None), (rx[0] if len(rx) == 1 else None)
 
 
 class RecSessionStub:
+    """Stands in for pylibsrtp.Session while `_setup_srtp` runs at function level: keeps the REAL `Policy` object it was
+    given (key, ssrc type, profile, replay window are read back through pylibsrtp's own getters)."""
     def __init__(self, policy):
         self.policy = policy
+        self.policy_type = policy.ssrc_type
+        if _SINK:
+            _SINK[-1].append(self)
+
+
+def eff_window(w: int) -> int:
+    """libsrtp: `window_size` 0 means the default of 128 packets."""
+    return 128 if not w else int(w)
+
+
+def policy_info(policy) -> dict:
+    return {"key": bytes(policy.key), "type": policy.ssrc_type, "prof": policy.srtp_profile,
+            "win": int(policy.window_size), "rep": bool(policy.allow_repeat_tx)}
 
 
 def ordered_sublists(names):
@@ -475,37 +770,44 @@ class KeysComp(Component):
     def _run_setup(self, case, role=None):
         M = _M()
         profs = self._profiles()
-        t = _bare_transport()
-        saved = (M.Policy, M.Session)
-        RecPolicy.SSRC_ANY_INBOUND = saved[0].SSRC_ANY_INBOUND
-        RecPolicy.SSRC_ANY_OUTBOUND = saved[0].SSRC_ANY_OUTBOUND
-        M.Policy, M.Session = RecPolicy, RecSessionStub
-        ssl = StubSsl(selected=case["sel"].encode(), material=bytes.fromhex(case["mat"]))
+        from harness import c04pool
+        saved = M.Session
+        M.Session = RecSessionStub
+        ssl = StubSsl(selected=case["sel"].encode(), material=bytes.fromhex(case["mat"]), real=c04pool.peer_connection(M, 0)[0])
+        made = []
+        _SINK.append(made)
         try:
-            t._ssl = ssl
-            t._state = M.State.CONNECTING
-            t._role = role or case["role"]
-            t._srtp_profiles = [profs[n] for n in case["profiles"]]
-            t._rx_srtp = t._tx_srtp = None
-            t._setup_srtp()
-            if t._state == M.State.FAILED:
+            try:
+                t = M.RTCDtlsTransport(DummyIce(), [_pool()["certs"][0]["rtc"]])
+                t._ssl = ssl
+                if (role or case["role"]) != "auto":
+                    t._set_role(role or case["role"])
+                t._srtp_profiles = [profs[n] for n in case["profiles"]]
+                before = t.state
+                setup = t._setup_srtp
+            except Exception as exc:
+                return "HARNESS-EXC cannot drive the implementation: " + type(exc).__name__ + ": " + str(exc)[:120], None
+            setup()
+            if t.state == "failed":
                 return "none", None
-            if t._state != M.State.CONNECTING:
+            if t.state != before:
                 return "state " + t.state, None
-            rx, tx = t._rx_srtp.policy, t._tx_srtp.policy
-            name = [n for n, p in profs.items() if p.libsrtp_profile == tx.srtp_profile]
-            info = {"rx_type": rx.ssrc_type, "tx_type": tx.ssrc_type, "rx_prof": rx.srtp_profile, "tx_prof": tx.srtp_profile,
-                    "calls": ssl.export_calls, "tx": tx.key, "rx": rx.key, "name": name[0] if name else "?"}
-            return f"{info['name']} {ssl.export_calls[-1][1] if ssl.export_calls else '?'} {enc_hex(tx.key)} {enc_hex(rx.key)}", info
+            txs, rxs = sessions_by_direction(made)
+            if txs is None or rxs is None:
+                return f"sessions {sorted(x.policy_type for x in made)}", None
+            rx, tx = policy_info(rxs.policy), policy_info(txs.policy)
+            name = [n for n, p in profs.items() if p.libsrtp_profile == tx["prof"]]
+            info = {"rx_type": rx["type"], "tx_type": tx["type"], "rx_prof": rx["prof"], "tx_prof": tx["prof"],
+                    "calls": ssl.export_calls, "tx": tx["key"], "rx": rx["key"], "name": name[0] if name else "?",
+                    "rx_pol": rx, "tx_pol": tx}
+            return f"{info['name']} {ssl.export_calls[-1][1] if ssl.export_calls else '?'} {enc_hex(tx['key'])} {enc_hex(rx['key'])}", info
         except Exception as exc:
+            if _raised_in_harness(exc):
+                return "HARNESS-EXC cannot drive the implementation: " + type(exc).__name__ + ": " + str(exc)[:120], None
             return "crash " + type(exc).__name__, None
         finally:
-            M.Policy, M.Session = saved
-            t._ssl = None
-            t._state = M.State.NEW
-            t._role = "auto"
-            t._srtp_profiles = M.SRTP_PROFILES
-            t._rx_srtp = t._tx_srtp = None
+            _SINK.pop()
+            M.Session = saved
 
     def impl(self, case):
         M = _M()
@@ -529,6 +831,10 @@ class KeysComp(Component):
         profs = self._profiles()
         sel = case["sel"]
         should = sel in case["profiles"]
+        if impl_out.startswith("HARNESS-EXC"):
+            return None  # broken correspondence (reported through the model comparison), not a failing input
+        if impl_out.startswith("sessions "):
+            return f"_setup_srtp did not create exactly one sending and one receiving SRTP session: {impl_out}"
         if (impl_out != "none") != should:
             return f"_setup_srtp {'failed' if impl_out == 'none' else 'succeeded'} with selected profile {sel!r} and local list {case['profiles']}"
         if not should:
@@ -545,10 +851,16 @@ class KeysComp(Component):
         tx, rx = rfc5764_keys(p.key_length, p.salt_length, mat, role)
         if (info["tx"], info["rx"]) != (tx, rx):
             return f"role {case['role']}: SRTP tx/rx keys are not the RFC 5764 {role} write/read keys for {sel}"
-        if info["tx_type"] != M.Policy.SSRC_ANY_OUTBOUND or info["rx_type"] != M.Policy.SSRC_ANY_INBOUND:
-            return "tx/rx policies have the wrong ssrc_type"
         if info["tx_prof"] != p.libsrtp_profile or info["rx_prof"] != p.libsrtp_profile:
             return f"libsrtp profile of the sessions is not the negotiated one ({sel})"
+        # mirror image of the replay windows: the peer's receiving session is configured by this very code, so whatever this
+        # sending session lets through (indexes less than its window behind the newest one) the receiving one must not call
+        # "too old" (Props/C04.lean `window_no_silent_loss`: rx window ≥ tx window is exactly the condition)
+        wtx, wrx = eff_window(info["tx_pol"]["win"]), eff_window(info["rx_pol"]["win"])
+        if wrx < wtx:
+            return (f"role {case['role']}, {sel}: the receiving SRTP session has a replay window of {wrx} packets, the sending one of "
+                    f"{wtx}: an RTP packet {wrx}..{wtx - 1} sequence numbers behind the newest one is encrypted by the sender and "
+                    f"silently dropped (index too old) by the peer")
         # mirror image: the opposite role on the same material swaps the two keys
         other = "client" if role == "server" else "server"
         _, info2 = self._run_setup(case, role=other)
@@ -583,10 +895,15 @@ class KeysComp(Component):
 # ----------------------------------------------------------------------------------------------
 
 class Conn:
-    """One direction-pair of an in-process datagram link with an in-transit mutation hook."""
+    """One direction of an in-process datagram link: an in-transit mutation hook, an optional hold (the next datagram is
+    overtaken by the following `hold` datagrams of this direction) and the log of what reached the receiving queue."""
     def __init__(self, rx, tx, stats):
         self.rx, self.tx, self.stats = rx, tx, stats
         self.mutate = None  # callable(bytes) -> bytes | None, applied to the next datagram sent
+        self.hold = 0       # > 0: the next datagram sent is delivered after `hold` later ones
+        self.tag = None     # op index of the traffic op that is being sent (None: handshake / alerts)
+        self.held = []      # [remaining, data, tag]
+        self.arrivals = []  # tags in the order the datagrams were put into the peer's queue
 
     async def recv(self):
         data = await self.rx.get()
@@ -594,14 +911,33 @@ class Conn:
             raise ConnectionError
         return data
 
+    async def _deliver(self, data, tag):
+        self.stats["sent"] += 1
+        self.arrivals.append(tag)
+        await self.tx.put(data)
+
     async def send(self, data):
         if self.mutate is not None:
             f, self.mutate = self.mutate, None
             data = f(data)
             if data is None:
                 return
-        self.stats["sent"] += 1
-        await self.tx.put(data)
+        if self.hold > 0:
+            self.held.append([self.hold, data, self.tag])
+            self.hold = 0
+            return
+        await self._deliver(data, self.tag)
+        for h in self.held:
+            h[0] -= 1
+        ready = [h for h in self.held if h[0] <= 0]
+        self.held = [h for h in self.held if h[0] > 0]
+        for _, d, tag in ready:
+            await self._deliver(d, tag)
+
+    async def flush(self):
+        held, self.held = self.held, []
+        for _, d, tag in held:
+            await self._deliver(d, tag)
 
 
 class Ice:
@@ -622,12 +958,18 @@ class Rec:
     """Everything recorded about one endpoint: model events `ev`, observed effects `obs`."""
     def __init__(self, name):
         self.name, self.ev, self.obs = name, [], []
+        self.sessions = []
         self.cur = None
         self.phase = "idle"
         self.processed = 0
 
 
-_CURRENT_SETUP: list = []
+import contextvars
+
+# the endpoint record of the transport whose start() is running in the current asyncio task (each start() runs in its own
+# task, the pump task created inside it inherits the context): lets the SRTP session proxy find its endpoint without
+# wrapping any private method of the transport
+_CUR_REC: contextvars.ContextVar = contextvars.ContextVar("c04_rec", default=None)
 
 
 def _install_shims():
@@ -727,7 +1069,23 @@ def _install_shims():
             self.policy_key = bytes(policy.key)
             self.policy_type = policy.ssrc_type
             self.policy_profile = policy.srtp_profile
-            self._rec = _CURRENT_SETUP[-1] if _CURRENT_SETUP else None
+            try:
+                self.policy_window = (int(policy.window_size), bool(policy.allow_repeat_tx))
+            except Exception:
+                self.policy_window = None
+            self._rec = _CUR_REC.get()
+            if _SINK:
+                _SINK[-1].append(self)
+            r = self._rec
+            if r is not None:
+                r.sessions.append(self)
+                tx, rx = sessions_by_direction(r.sessions)
+                if tx is not None and rx is not None and getattr(r, "keys", None) is None:
+                    # both sessions of this endpoint exist now (the second constructor call inside _setup_srtp)
+                    name = [p.openssl_profile.decode() for p in M.SRTP_PROFILES if p.libsrtp_profile == tx.policy_profile]
+                    r.obs.append(f"keys:{name[0] if name else '?'}:{enc_hex(tx.policy_key)}:{enc_hex(rx.policy_key)}")
+                    r.keys = (name[0] if name else "?", tx.policy_key, rx.policy_key, tx.policy_type, rx.policy_type, rx.policy_profile)
+                    r.windows = (tx.policy_window, rx.policy_window)
 
         def _un(self, f, data):
             r = self._rec
@@ -810,21 +1168,6 @@ def _instrument(t, rec, cert, ice):
             rec.obs.append("st:" + t.state)
     t._set_state = set_state
 
-    orig_setup = t._setup_srtp
-
-    def setup():
-        _CURRENT_SETUP.append(rec)
-        try:
-            orig_setup()
-        finally:
-            _CURRENT_SETUP.pop()
-        if t._tx_srtp is not None and t._rx_srtp is not None:
-            name = [p.openssl_profile.decode() for p in M.SRTP_PROFILES if p.libsrtp_profile == t._tx_srtp.policy_profile]
-            rec.obs.append(f"keys:{name[0] if name else '?'}:{enc_hex(t._tx_srtp.policy_key)}:{enc_hex(t._rx_srtp.policy_key)}")
-            rec.keys = (name[0] if name else "?", t._tx_srtp.policy_key, t._rx_srtp.policy_key,
-                        t._tx_srtp.policy_type, t._rx_srtp.policy_type, t._rx_srtp.policy_profile)
-    t._setup_srtp = setup
-
     orig_ice_recv = ice._recv
 
     async def ice_recv():
@@ -877,26 +1220,29 @@ def _instrument(t, rec, cert, ice):
 
 
 def _certs():
-    M = _M()
-    if "certs" not in _CACHE:
-        _CACHE["certs"] = [M.RTCCertificate.generateCertificate() for _ in range(3)]
-    return _CACHE["certs"]
+    return [e["rtc"] for e in _pool()["certs"]]
 
 
-def build_fps(spec, cert, other_cert):
-    """Fingerprint list for `cert` from a JSON spec: entries [alg-as-written, kind, value-case]."""
+def build_fps(spec, cert_i, other_i=2, signalled=None):
+    """Fingerprint list expected of the peer whose certificate is pool certificate `cert_i`, from a JSON spec of entries
+    [alg-as-written, kind, value-case]; kind: "ok" (true digest of that certificate), "of:<j>" (true digest of pool
+    certificate j), "other-cert", "signalled" (what the peer transport's own getLocalParameters() says), "junk", or a
+    corruption of the true digest."""
     import random
-    M = _M()
+    certs = _pool()["certs"]
     out = []
     for i, (alg, kind, vcase) in enumerate(spec):
-        base = alg.lower()
-        h = M.X509_DIGEST_ALGORITHMS.get(base) or M.X509_DIGEST_ALGORITHMS.get("sha-256") or list(M.X509_DIGEST_ALGORITHMS.values())[0]
-        good = colon_hex(cert._cert.fingerprint(h))
+        base = alg.lower() if alg.lower() in PROPERTY_ALGS else "sha-256"
+        good = colon_hex(certs[cert_i]["dg"][base])
         rng = random.Random(i * 7919 + len(alg))
         if kind == "ok":
             v = good
         elif kind == "other-cert":
-            v = colon_hex(other_cert._cert.fingerprint(h))
+            v = colon_hex(certs[other_i]["dg"][base])
+        elif kind.startswith("of:"):
+            v = colon_hex(certs[int(kind[3:])]["dg"][base])
+        elif kind == "signalled":
+            v = next((f.value for f in (signalled or []) if ascii_fold(f.algorithm) == base), "bogus_fingerprint")
         elif kind == "junk":
             v = "bogus_fingerprint"
         else:
@@ -915,7 +1261,7 @@ def make_rtp(seq, payload, ssrc, pt=None):
     if pt is None:
         pt = RTP_PTS[seq % len(RTP_PTS)]
     marker = (seq // len(RTP_PTS)) % 2
-    p = RtpPacket(payload_type=pt, marker=marker, sequence_number=seq & 0xFFFF, timestamp=seq * 160, ssrc=ssrc)
+    p = RtpPacket(payload_type=pt, marker=marker, sequence_number=seq & 0xFFFF, timestamp=(seq * 160) & 0xFFFFFFFF, ssrc=ssrc)
     p.payload = payload
     return p.serialize()
 
@@ -925,12 +1271,34 @@ def make_rtcp(ssrc, n):
     return bytes(RtcpSrPacket(ssrc=ssrc, sender_info=RtcpSenderInfo(ntp_timestamp=n, rtp_timestamp=n * 3, packet_count=n, octet_count=n * 7)))
 
 
-SSRC = {"A": 1831097322, "B": 4028317929}
+SSRCS = {"A": [1831097322, 305419896, 4294901761], "B": [4028317929, 7, 2863311530]}
+SSRC = {s: v[0] for s, v in SSRCS.items()}
 
 
-async def _run_pair(case):
+def norm_ops(traffic):
+    """Traffic ops in canonical dict form. Legacy list form [kind, side, payload-hex, flip?]: RTP/RTCP on the side's first
+    SSRC with the next sequence number. Dict form: {"op", "s", "pl", "flip", "k" (SSRC index), "ext" (extended sequence
+    number ROC·65536+seq of an RTP packet), "hold" (datagram overtaken in transit by the next `hold` ones)}."""
+    seq = {"A": 100, "B": 7000}
+    out = []
+    for op in traffic:
+        if isinstance(op, dict):
+            d = {"op": op["op"], "s": op["s"], "pl": op.get("pl", ""), "flip": op.get("flip"), "k": op.get("k", 0),
+                 "ext": op.get("ext"), "hold": op.get("hold", 0)}
+        else:
+            d = {"op": op[0], "s": op[1], "pl": op[2], "flip": op[3] if len(op) > 3 else None, "k": 0, "ext": None, "hold": 0}
+        if d["op"] in ("rtp", "rtcp") and d["ext"] is None:
+            seq[d["s"]] += 1
+            d["ext"] = seq[d["s"]]
+        out.append(d)
+    return out
+
+
+async def _run_conn(case):
+    """One connection attempt between two real transports + traffic; returns plain (picklable) data."""
     M = _M()
     _install_shims()
+    import pylibsrtp
     from aiortc.rtcrtpparameters import RTCRtpCodecParameters, RTCRtpDecodingParameters, RTCRtpReceiveParameters
     profs = {p.openssl_profile.decode(): p for p in M.SRTP_PROFILES}
     qa, qb = asyncio.Queue(), asyncio.Queue()
@@ -938,7 +1306,8 @@ async def _run_pair(case):
     ca, cb = Conn(qa, qb, stats["A"]), Conn(qb, qa, stats["B"])
     ice = {"A": Ice(ca, "controlling"), "B": Ice(cb, "controlled")}
     certs = _certs()
-    cert = {"A": certs[0], "B": certs[1]}
+    ci = {"A": case.get("certA", 0), "B": case.get("certB", 1)}
+    cert = {s: certs[ci[s]] for s in "AB"}
     rec = {"A": Rec("A"), "B": Rec("B")}
     t, dr, rr = {}, {}, {}
     roles = {"A": case["roles"][0], "B": case["roles"][1]}
@@ -952,15 +1321,25 @@ async def _run_pair(case):
             dr[s] = DataReceiver(rec[s])
             t[s]._register_data_receiver(dr[s])
         rr[s] = RtpReceiver()
-        # each side's receiver listens for the peer's SSRC
+        # each side's receiver listens for the peer's SSRCs
         peer = "B" if s == "A" else "A"
         t[s]._register_rtp_receiver(rr[s], RTCRtpReceiveParameters(
             codecs=[RTCRtpCodecParameters(mimeType="audio/PCMU", clockRate=8000, payloadType=pt) for pt in RTP_PTS],
-            encodings=[RTCRtpDecodingParameters(ssrc=SSRC[peer], payloadType=0)]))
-    fps = {"A": build_fps(case["fpA"], cert["B"], certs[2]), "B": build_fps(case["fpB"], cert["A"], certs[2])}
+            encodings=[RTCRtpDecodingParameters(ssrc=x, payloadType=0) for x in SSRCS[peer]]))
+    fps = {}
+    for s, peer in (("A", "B"), ("B", "A")):
+        spec = case["fp" + s]
+        signalled = None
+        if any(e[1] == "signalled" for e in spec):
+            try:
+                signalled = t[peer].getLocalParameters().fingerprints
+            except Exception:
+                signalled = []
+        fps[s] = build_fps(spec, ci[peer], 2, signalled)
 
     async def start(s):
         r = rec[s]
+        _CUR_REC.set(r)
         r.ev.append(f"S~{'1' if ice[s].role == 'controlling' else '0'}~{enc_fps(fps[s])}")
         r.phase = "hs"
         n_obs = len(r.obs)
@@ -1024,21 +1403,21 @@ async def _run_pair(case):
     await settle()
     state_after_start = {s: t[s].state for s in "AB"}
 
-    sent = {"A": [], "B": []}      # (kind, plaintext, altered?) in order of sending
-    seq = {"A": 100, "B": 7000}
-    for op in case["traffic"]:
-        kind, s = op[0], op[1]
-        peer = "B" if s == "A" else "A"
+    ops = []      # one record per traffic op
+    rtcp_n = {"A": 0, "B": 0}
+    for idx, op in enumerate(norm_ops(case["traffic"])):
+        kind, s = op["op"], op["s"]
         r = rec[s]
-        flip = op[3] if len(op) > 3 else None
+        flip = op["flip"]
+        ssrc = SSRCS[s][op["k"] % len(SSRCS[s])]
         if kind == "data":
-            payload = bytes.fromhex(op[2])
+            payload = bytes.fromhex(op["pl"])
         elif kind == "rtp":
-            seq[s] += 1
-            payload = make_rtp(seq[s], bytes.fromhex(op[2]), SSRC[s])
+            payload = make_rtp(op["ext"], bytes.fromhex(op["pl"]), ssrc)
         else:
-            seq[s] += 1
-            payload = make_rtcp(SSRC[s], seq[s])
+            rtcp_n[s] += 1
+            payload = make_rtcp(ssrc, 1000 * op["k"] + rtcp_n[s])
+        conn = ice[s]._connection
         if flip is not None:
             def mut(d, flip=flip, kind=kind):
                 i = flip % (len(d) * 8)
@@ -1047,20 +1426,35 @@ async def _run_pair(case):
                     # second record and answer with a fatal alert (see notes/C04.md, observation O1)
                     i += 16
                 return d[: i // 8] + bytes([d[i // 8] ^ (1 << (i % 8))]) + d[i // 8 + 1:]
-            ice[s]._connection.mutate = mut
+            conn.mutate = mut
+        conn.hold, conn.tag = op["hold"], idx
+        n_ev = len(r.ev)
         r.ev.append(("D~" if kind == "data" else "R~") + enc_hex(payload))
+        status = "sent"
         try:
             if kind == "data":
                 await t[s]._send_data(payload)
             else:
                 await t[s]._send_rtp(payload)
-            sent[s].append((kind, payload, flip is not None))
         except ConnectionError:
             r.obs.append("refused")
+            status = "refused"
+        except pylibsrtp.Error:
+            # the SENDING libsrtp session refused to encrypt the packet (index behind its own replay window): visible to
+            # the caller, nothing was put on the wire
+            r.ev[n_ev] += "~F"
+            r.obs.append("raised:Error")
+            status = "txerr"
         except Exception as exc:
             r.obs.append("raised:" + type(exc).__name__)
-        ice[s]._connection.mutate = None
+            status = "raised:" + type(exc).__name__
+        conn.mutate, conn.hold, conn.tag = None, 0, None
+        ops.append({"i": idx, "kind": kind, "s": s, "plain": payload, "altered": flip is not None, "hold": op["hold"],
+                    "k": op["k"], "ext": op["ext"], "ssrc": ssrc, "status": status})
         await settle()
+    for s in "AB":
+        await ice[s]._connection.flush()
+    await settle()
 
     for s in "AB":
         rec[s].ev.append("X")
@@ -1074,171 +1468,380 @@ async def _run_pair(case):
     for s in "AB":
         if t[s]._task is not None:
             t[s]._task.cancel()
-    return {"rec": rec, "state": state_after_start, "final": final, "sent": sent, "fps": fps, "cert": cert,
-            "dr": {s: (dr[s].data if s in dr else None) for s in "AB"}, "rr": rr,
+    pool = _pool()["certs"]
+    return {"ev": {s: rec[s].ev for s in "AB"}, "obs": {s: rec[s].obs for s in "AB"},
+            "state": state_after_start, "final": final, "ops": ops, "fps": fps, "cert": ci,
+            "dgs": {"A": pool[ci["B"]]["dg"], "B": pool[ci["A"]]["dg"]},
+            # datagrams that reached X's queue were sent by the other side: arrivals[X] = tags in arrival order
+            "arrivals": {"A": list(cb.arrivals), "B": list(ca.arrivals)},
+            "dr": {s: (list(dr[s].data) if s in dr else None) for s in "AB"},
+            "rr": {s: {"rtp": [(p.ssrc, p.sequence_number, bytes(p.payload)) for p in rr[s].rtp], "rtcp": len(rr[s].rtcp)} for s in "AB"},
             "keys": {s: getattr(rec[s], "keys", None) for s in "AB"},
-            "hs": {s: getattr(rec[s], "hs", None) for s in "AB"}}
+            "windows": {s: getattr(rec[s], "windows", None) for s in "AB"},
+            "mat": {s: (rec[s].hs["mat"] if getattr(rec[s], "hs", None) else None) for s in "AB"}}
 
 
-class Pair(Component):
+def _run_loop(coro_fn, case):
+    loop = asyncio.new_event_loop()
+    try:
+        res = loop.run_until_complete(coro_fn(case))
+        # let cancelled pumps finish
+        loop.run_until_complete(asyncio.sleep(0))
+        return res
+    finally:
+        try:
+            for task in asyncio.all_tasks(loop):
+                task.cancel()
+            loop.run_until_complete(asyncio.sleep(0))
+        except Exception:
+            pass
+        loop.close()
+
+
+MIN_WINDOW = 64  # libsrtp's smallest replay window: a packet held back in transit is only required while it is this close
+
+
+class Pair(SeqComponent):
+    """A case is one connection attempt (+ traffic), optionally preceded by earlier connections (`pre`) made in the same
+    process — e.g. a legitimate peer first, then an impostor whose certificate copies the legitimate one's serial number."""
     name = "pair"
     theorems = ["connected_only_if", "delivery_only_if_validated", "failed_terminal", "failed_silent", "send_refused_unless_connected",
                 "srtp_only_after_setup", "recvNext_delivery", "recvNext_auth_failure_drops", "run_state_connected_iff",
-                "step_to_connected", "connected_stays", "inv_step"]
+                "step_to_connected", "connected_stays", "inv_step", "sendRtp_state_unchanged", "sendRtp_protect_failure_visible",
+                "window_no_silent_loss"]
 
     def __init__(self):
         self._cache = {}    # case key -> {"line":…, "out":…, "taken":bool}
-        self._summary = {}  # impl output -> summary for the oracle
+        self._summary = {}  # case key + impl output -> list of per-connection results, for the oracle
 
     def _names(self):
         return [p.openssl_profile.decode() for p in _M().SRTP_PROFILES]
 
+    def _conns(self, case):
+        return list(case.get("pre", [])) + [case]
+
     def corpus(self):
         n = self._names()
         good = [["sha-256", "ok", "upper"]]
-        return [
-            {"profA": n, "profB": n, "roles": ["auto", "auto"], "fpA": good, "fpB": good, "dr": [True, True],
-             "traffic": [["data", "A", "01ff"], ["rtp", "B", "aabb"], ["rtcp", "A", ""], ["rtp", "A", "00", 100], ["data", "B", "77", 130], ["data", "B", "78"]]},
-            {"profA": n, "profB": n, "roles": ["client", "server"], "fpA": [["sha-256", "junk", "asis"]], "fpB": good, "dr": [True, True],
-             "traffic": [["data", "A", "01"], ["data", "B", "02"], ["rtp", "B", "03"], ["rtp", "A", "04"]]},
-            {"profA": n[:1], "profB": n[-1:], "roles": ["auto", "auto"], "fpA": good, "fpB": good, "dr": [True, True],
-             "traffic": [["data", "A", "01"], ["rtp", "B", "03"]]},
-            {"profA": n, "profB": n, "roles": ["server", "client"], "fpA": [], "fpB": good, "dr": [True, True],
-             "traffic": [["data", "B", "02"]]},
-            {"profA": n, "profB": n, "roles": ["auto", "auto"], "fpA": good, "fpB": good, "dr": [True, True],
-             "early": [["A", "80c8000102030405060708090a0b"], ["B", "8000000102030405060708090a0b0c0d0e0f"]],
-             "traffic": [["rtp", "A", "01"], ["data", "B", "02"]]},
+        base = {"profA": n, "profB": n, "roles": ["auto", "auto"], "fpA": good, "fpB": good, "dr": [True, True]}
+        out = [
+            dict(base, traffic=[["data", "A", "01ff"], ["rtp", "B", "aabb"], ["rtcp", "A", ""], ["rtp", "A", "00", 100], ["data", "B", "77", 130], ["data", "B", "78"]]),
+            dict(base, roles=["client", "server"], fpA=[["sha-256", "junk", "asis"]],
+                 traffic=[["data", "A", "01"], ["data", "B", "02"], ["rtp", "B", "03"], ["rtp", "A", "04"]]),
+            dict(base, profA=n[:1], profB=n[-1:], traffic=[["data", "A", "01"], ["rtp", "B", "03"]]),
+            dict(base, roles=["server", "client"], fpA=[], traffic=[["data", "B", "02"]]),
+            dict(base, early=[["A", "80c8000102030405060708090a0b"], ["B", "8000000102030405060708090a0b0c0d0e0f"]],
+                 traffic=[["rtp", "A", "01"], ["data", "B", "02"]]),
         ]
+        # one SSRC: a burst, packets at and around both edges of the 1024-packet window behind the newest one, a
+        # retransmission, 16-bit wrap-around; then the same on a second SSRC and in the other direction
+        def rtp(s, ext, k=0, **kw):
+            return dict({"op": "rtp", "s": s, "pl": "%04x" % (ext & 0xFFFF), "k": k, "ext": ext}, **kw)
+        for roles in (["client", "server"], ["server", "client"]):
+            for prof in n:
+                tr = [rtp("A", 3000), rtp("A", 3001), rtp("A", 3001 - 127), rtp("A", 3001 - 128), rtp("A", 3001 - 129),
+                      rtp("A", 3001 - 1023), rtp("A", 3001 - 1024), rtp("A", 3001 - 500), rtp("A", 3001 - 500), rtp("A", 3002),
+                      rtp("B", 65000, 1), rtp("B", 65535, 1), rtp("B", 65536 + 600, 1), rtp("B", 65536 + 600 - 1023, 1),
+                      rtp("B", 65536 + 600 - 129, 1, hold=2), rtp("B", 65536 + 601, 1), rtp("B", 65536 + 602, 1),
+                      {"op": "rtcp", "s": "A", "k": 1}, {"op": "rtcp", "s": "A", "k": 1, "hold": 1}, {"op": "rtcp", "s": "A", "k": 0},
+                      {"op": "data", "s": "B", "pl": "0a0b", "hold": 1}, {"op": "data", "s": "B", "pl": "0c"}]
+                out.append(dict(base, roles=roles, profA=[prof], profB=[prof], traffic=tr))
+        # a legitimate peer, then — same process — another party whose certificate shares attributes with the legitimate one
+        for a, b, _ in _pool()["twins"]:
+            for x, y in ((a, b), (b, a)):
+                legit = dict(base, certA=2 if x != 2 and y != 2 else 0, certB=x, traffic=[["data", "B", "01"]])
+                out.append(dict(base, certA=legit["certA"], certB=y, fpA=[["sha-256", f"of:{x}", "upper"], ["sha-512", f"of:{x}", "lower"]],
+                                traffic=[["data", "B", "4556494c"], ["rtp", "B", "66"], ["data", "A", "02"]],
+                                pre=[dict(legit, fpA=[["sha-256", "ok", "upper"], ["sha-512", "ok", "lower"]])]))
+                out.append(dict(base, certA=legit["certA"], certB=y, fpA=[["sha-384", "signalled", "asis"]],
+                                traffic=[["data", "B", "03"]], pre=[dict(legit, fpA=[["sha-384", "signalled", "asis"]])]))
+        return out
+
+    GOOD = [
+        [["sha-256", "ok", "upper"]],
+        [["SHA-256", "ok", "lower"]],
+        [["sha-384", "ok", "mixed"], ["sha-512", "ok", "random"]],
+        [["sha-512", "ok", "upper"], ["Sha-256", "ok", "lower"], ["sha-384", "ok", "asis"]],
+        [["sha-1", "junk", "asis"], ["sha-256", "ok", "asis"]],
+        [["md5", "ok", "asis"], ["sHa-384", "ok", "random"], ["", "junk", "asis"]],
+        [["sha-256", "signalled", "asis"], ["sha-512", "signalled", "lower"]],
+    ]
+    BAD = [
+        [["sha-256", "flip", "asis"]],
+        [["sha-256", "other-cert", "asis"]],
+        [["sha-256", "ok", "upper"], ["sha-384", "flip", "upper"]],
+        [["sha-512", "trunc", "lower"], ["sha-256", "ok", "lower"]],
+        [["sha-1", "ok", "asis"]],
+        [["sha256", "ok", "asis"], ["md5", "junk", "asis"]],
+        [["sha-256", "nocolon", "asis"]],
+        [["sha-256", "junk", "asis"]],
+        [],
+        [["sha-384", "other-cert", "lower"], ["sha-384", "ok", "lower"]],
+    ]
+
+    def _gen_traffic(self, rng, n_ops, heavy):
+        """Data / RTCP / RTP ops. RTP: per (side, SSRC) a stream of extended sequence numbers — mostly +1, forward jumps,
+        backward jumps of every size up to and just beyond the 1024 window (127, 128, 129, 1023, 1024 …) relative to the
+        newest one, retransmissions of a number sent before, start values around the 16-bit wrap. The FIRST packet of a
+        stream is never altered or held (a receiver that has seen nothing of a stream cannot infer its roll-over counter)."""
+        streams = {}   # (side, k) -> {"hi": newest ext, "sent": [ext...]}
+        traffic = []
+        kinds = ["data", "rtp", "rtp", "rtcp"] if not heavy else ["data", "rtp", "rtp", "rtp", "rtp", "rtp", "rtcp"]
+        for _ in range(n_ops):
+            kind = rng.choice(kinds)
+            s = rng.choice("AB")
+            op = {"op": kind, "s": s}
+            first = False
+            if kind == "data":
+                op["pl"] = bytes(rng.randrange(256) for _ in range(rng.choice([1, 1, 2, 5, 20, 200, 1100]))).hex()
+            elif kind == "rtcp":
+                op["k"] = rng.randrange(3)
+            else:
+                k = rng.choice([0, 0, 1, 2])
+                st = streams.get((s, k))
+                if st is None:
+                    ext = rng.choice([0, 1, 1100, 3000, 32767, 32768, 40000, 65000, 65530, 65535])
+                    streams[(s, k)] = st = {"hi": ext, "sent": []}
+                    first = True
+                else:
+                    m = rng.random()
+                    hi = st["hi"]
+                    if m < 0.40:
+                        ext = hi + 1
+                    elif m < 0.55:
+                        ext = hi + rng.choice([2, 3, 10, 128, 129, 600, 1024, 1500])
+                    elif m < 0.65 and st["sent"]:
+                        ext = rng.choice(st["sent"])                      # retransmission
+                    else:
+                        d = rng.choice([1, 2, 3, 50, 126, 127, 128, 129, 130, 500, 1000, 1022, 1023, 1024, 1025, rng.randrange(1, 1100)])
+                        ext = hi - d if hi - d >= 0 else hi + 1100            # early in a stream: jump forward first
+                st["hi"] = max(st["hi"], ext)
+                st["sent"].append(ext)
+                op.update(k=k, ext=ext, pl=bytes(rng.randrange(256) for _ in range(rng.choice([1, 2, 5, 20, 200, 1100]))).hex())
+            if not first:
+                if rng.random() < 0.25:
+                    op["flip"] = rng.randrange(0, 1 << 14)
+                if rng.random() < 0.12 and not (kind == "rtp" and st["hi"] - op["ext"] > 20):
+                    op["hold"] = rng.choice([1, 1, 2, 3])
+            traffic.append(op)
+        return traffic
 
     def cases(self, rng, tier):
         names = self._names()
         subs = ordered_sublists(names)
-        good_variants = [
-            [["sha-256", "ok", "upper"]],
-            [["SHA-256", "ok", "lower"]],
-            [["sha-384", "ok", "mixed"], ["sha-512", "ok", "random"]],
-            [["sha-512", "ok", "upper"], ["Sha-256", "ok", "lower"], ["sha-384", "ok", "asis"]],
-            [["sha-1", "junk", "asis"], ["sha-256", "ok", "asis"]],
-            [["md5", "ok", "asis"], ["sHa-384", "ok", "random"], ["", "junk", "asis"]],
-        ]
-        bad_variants = [
-            [["sha-256", "flip", "asis"]],
-            [["sha-256", "other-cert", "asis"]],
-            [["sha-256", "ok", "upper"], ["sha-384", "flip", "upper"]],
-            [["sha-512", "trunc", "lower"], ["sha-256", "ok", "lower"]],
-            [["sha-1", "ok", "asis"]],
-            [["sha256", "ok", "asis"], ["md5", "junk", "asis"]],
-            [["sha-256", "nocolon", "asis"]],
-            [["sha-256", "junk", "asis"]],
-            [],
-            [["sha-384", "other-cert", "lower"], ["sha-384", "ok", "lower"]],
-        ]
         role_opts = [["auto", "auto"], ["client", "server"], ["server", "client"]]
-        n = 300 if tier == "quick" else 9000
+        n = 300 if tier == "quick" else 6000
         out = []
         combos = [(pa, pb, r) for pa in subs for pb in subs for r in role_opts]
         rng.shuffle(combos)
+        from harness import c04pool
+        ecs = c04pool.ec_indexes(_M())
+        twins = [(a, b) for a, b, _ in _pool()["twins"]]
+        plain = [i for i in ecs if _pool()["certs"][i]["kind"] in ("lib", "ff")]
         for i in range(n):
             pa, pb, r = combos[i % len(combos)]
             m = rng.random()
-            fa = rng.choice(good_variants) if m < 0.6 or 0.8 <= m else rng.choice(bad_variants)
-            fb = rng.choice(good_variants) if m < 0.7 else rng.choice(bad_variants)
+            fa = rng.choice(self.GOOD) if m < 0.6 or 0.8 <= m else rng.choice(self.BAD)
+            fb = rng.choice(self.GOOD) if m < 0.7 else rng.choice(self.BAD)
             if rng.random() < 0.5:
                 fa, fb = fb, fa
-            traffic = []
-            for _ in range(rng.randrange(3, 9)):
-                kind = rng.choice(["data", "data", "rtp", "rtp", "rtcp"])
-                s = rng.choice("AB")
-                payload = bytes(rng.randrange(256) for _ in range(rng.choice([1, 1, 2, 5, 20, 200, 1100]))).hex() if kind != "rtcp" else ""
-                op = [kind, s, payload]
-                if rng.random() < 0.3:
-                    op.append(rng.randrange(0, 1 << 14))
-                traffic.append(op)
+            heavy = rng.random() < 0.35
+            if heavy:
+                # RTP-heavy traffic needs a connection: same profile order trouble aside, keep a common profile and good lists
+                fa, fb = rng.choice(self.GOOD), rng.choice(self.GOOD)
+                if not [p for p in pa if p in pb]:
+                    pb = pa
             case = {"profA": pa, "profB": pb, "roles": r, "fpA": fa, "fpB": fb,
-                    "dr": [rng.random() < 0.85, rng.random() < 0.85], "traffic": traffic}
-            if rng.random() < 0.3:
+                    "dr": [rng.random() < 0.85, rng.random() < 0.85],
+                    "traffic": self._gen_traffic(rng, rng.randrange(12, 40) if heavy else rng.randrange(3, 9), heavy)}
+            ca, cb = rng.sample(ecs, 2)
+            case["certA"], case["certB"] = ca, cb
+            if rng.random() < 0.3 and not heavy:
                 case["early"] = [[rng.choice("AB"),
                                   bytes([rng.choice([0x80, 0x80, 0x90, 0xBF, 0x81, 0x00, 0x13, 0x40, 0x7F, 0xC0, 0xFF]),
                                          rng.choice([0, 200, 201, 96])] + [rng.randrange(256) for _ in range(rng.choice([0, 10, 30]))]).hex()]
                                  for _ in range(rng.choice([1, 1, 2]))]
+            q = rng.random()
+            if q < 0.25:
+                # an earlier connection in the same process with a certificate that shares attributes with this one's
+                x, y = rng.choice(twins)
+                if rng.random() < 0.5:
+                    x, y = y, x
+                v = rng.choice([c for c in plain if c not in (x, y)])
+                sig = rng.random() < 0.3
+                okl = [["sha-256", "signalled", "asis"]] if sig else rng.choice(self.GOOD)
+                pre = {"profA": names, "profB": names, "roles": rng.choice(role_opts), "fpA": okl, "fpB": rng.choice(self.GOOD),
+                       "dr": [True, True], "certA": v, "certB": x,
+                       "traffic": [["data", rng.choice("AB"), "%02x" % rng.randrange(256)] for _ in range(rng.choice([0, 1, 2]))]}
+                case["pre"] = [pre]
+                case["certA"], case["certB"] = v, y
+                mode = rng.random()
+                if mode < 0.55:
+                    # the answering party is NOT the one whose fingerprints were signalled (those of the earlier peer)
+                    alg = rng.choice(["sha-256", "SHA-384", "sha-512"])
+                    case["fpA"] = [[alg, f"of:{x}", rng.choice(["upper", "lower", "asis"])]]
+                elif mode < 0.75:
+                    case["fpA"] = [["sha-256", "signalled", "asis"]]
+                # else: whatever was drawn (honest second connection with a look-alike certificate)
+            elif q < 0.32:
+                # the same two parties connect twice
+                case["pre"] = [dict(case, traffic=case["traffic"][:2])]
+                case["pre"][0].pop("early", None)
             case["n"] = i  # keeps cases distinct: runs are cached per case (keys are random per handshake)
             out.append(case)
         return out
 
     # ---- running / caching ----
-    def _execute(self, case):
-        loop = asyncio.new_event_loop()
+    def _run_local(self, case):
         try:
-            res = loop.run_until_complete(_run_pair(case))
-            # let cancelled pumps finish
-            loop.run_until_complete(asyncio.sleep(0))
-        finally:
-            try:
-                for task in asyncio.all_tasks(loop):
-                    task.cancel()
-                loop.run_until_complete(asyncio.sleep(0))
-            except Exception:
-                pass
-            loop.close()
+            return self._run_local_inner(case)
+        except Exception as exc:
+            if _raised_in_harness(exc):
+                out = "HARNESS-EXC cannot drive the implementation: " + type(exc).__name__ + ": " + str(exc)[:160]
+            else:
+                out = "crash:" + type(exc).__name__ + ": " + str(exc)[:160]
+            return {"line": "dtls cannot-drive", "out": out, "results": None}
+
+    def _run_local_inner(self, case):
+        results = [_run_loop(_run_conn, c) for c in self._conns(case)]
         specs, outs = [], []
-        for s in "AB":
-            r = res["rec"][s]
-            role = case["roles"][0 if s == "A" else 1]
-            specs.append(f"{','.join(case['prof' + s]) or '-'}/{'1' if case['dr'][0 if s == 'A' else 1] else '0'}/{role}/{';'.join(r.ev) or '-'}")
-            outs.append(",".join(r.obs + ["final:" + res["final"][s]]))
-        line = "dtls trace " + " ".join(specs)
-        out = " | ".join(outs)
-        self._summary[case_key(case) + out] = res
-        return line, out
+        for c, res in zip(self._conns(case), results):
+            for s in "AB":
+                role = c["roles"][0 if s == "A" else 1]
+                specs.append(f"{','.join(c['prof' + s]) or '-'}/{'1' if c['dr'][0 if s == 'A' else 1] else '0'}/{role}/{';'.join(res['ev'][s]) or '-'}")
+                outs.append(",".join(res["obs"][s] + ["final:" + res["final"][s]]))
+        return {"line": "dtls trace " + " ".join(specs), "out": " | ".join(outs), "results": results}
+
+    def _store(self, case, result):
+        k = case_key(case)
+        self._summary[k + result["out"]] = result["results"]
+        self._cache[k] = {"line": result["line"], "out": result["out"], "taken": True}
+        return result["out"]
+
+    def _snapshot(self, case):
+        return self._cache.get(case_key(case))
+
+    def _restore(self, case, snap):
+        if snap is not None:
+            self._cache[case_key(case)] = snap
 
     def impl(self, case):
-        k = case_key(case)
-        ent = self._cache.get(k)
+        ent = self._cache.get(case_key(case))
         if ent is not None and not ent["taken"]:
             ent["taken"] = True
             return ent["out"]
-        line, out = self._execute(case)
-        self._cache[k] = {"line": line, "out": out, "taken": True}
-        return out
+        return SeqComponent.impl(self, case)
 
     def model_line(self, case):
         k = case_key(case)
         ent = self._cache.get(k)
         if ent is None:
             try:
-                line, out = self._execute(case)
+                SeqComponent.impl(self, case)
             except Exception:
                 return None
-            ent = self._cache[k] = {"line": line, "out": out, "taken": False}
+            ent = self._cache[k]
+            ent["taken"] = False
         return ent["line"]
 
     # ---- the property on the implementation ----
-    def oracle(self, case, impl_out):
-        res = self._summary.get(case_key(case) + impl_out)
-        if res is None:
-            return None if not impl_out.startswith("HARNESS-EXC") else "pair run failed: " + impl_out
+    def _oracle_raw(self, case, impl_out):
+        results = self._summary.get(case_key(case) + impl_out)
+        if results is None:
+            # HARNESS-EXC: the harness could not drive the implementation — a broken correspondence (the model line of such a
+            # run never matches), not a failing input
+            return ("the transport pair raised " + impl_out[6:]) if impl_out.startswith("crash:") else None
+        conns = self._conns(case)
+        for n, (c, res) in enumerate(zip(conns, results)):
+            msg = self._oracle_conn(c, res)
+            if msg:
+                if len(conns) == 1:
+                    return msg
+                before = "; ".join(f"connection {m + 1}: certificates {_describe_cert(r['cert']['A'])} / {_describe_cert(r['cert']['B'])} → "
+                                   f"{r['state']['A']}/{r['state']['B']}" for m, r in enumerate(results[:n]))
+                return (f"connection {n + 1} of {len(conns)} in this process (certificates A={_describe_cert(res['cert']['A'])}, "
+                        f"B={_describe_cert(res['cert']['B'])}" + (f"; earlier — {before}" if before else "") + f"): {msg}")
+        return None
+
+    def _expected_flow(self, res, s, peer, both):
+        """Per packet, in the order the datagrams reached `peer`: what of the traffic sent by `s` must / may have been handed
+        to peer's data receiver, RTP handler and RTCP handler. Returns an error text or None."""
+        ops = {o["i"]: o for o in res["ops"] if o["s"] == s}
+        arrived = [ops[tag] for tag in res["arrivals"][peer] if tag is not None and tag in ops]
+        obs = res["obs"][peer]
+        got = {"data": [bytes.fromhex(o[3:]) for o in obs if o.startswith("dd:")],
+               "rtp": [bytes.fromhex(o[5:]) for o in obs if o.startswith("drtp:")],
+               "rtcp": [bytes.fromhex(o[6:]) for o in obs if o.startswith("drtcp:")]}
+        ptr = {"data": 0, "rtp": 0, "rtcp": 0}
+        hi, seen = {}, {}          # per SSRC: newest extended index delivered to peer, indexes delivered
+        tx_hi = {}                 # per SSRC: newest extended index the sender encrypted before this packet
+        order = {o["i"]: n for n, o in enumerate(res["ops"])}
+        for o in arrived:
+            kind = o["kind"]
+            if o["status"] != "sent":
+                return f"{kind} op {o['i']} of {s} ({o['status']}) nevertheless put a datagram on the wire"
+            if o["altered"]:
+                continue   # must not be delivered: anything it produced shows up as a packet nobody sent (below)
+            nxt = got[kind][ptr[kind]] if ptr[kind] < len(got[kind]) else None
+            delivered = nxt == o["plain"]
+            if not delivered and o["plain"] in got[kind][ptr[kind]:]:
+                return (f"{peer} handed a {kind} packet to its receivers that {s} did not send in that form "
+                        f"({got[kind][ptr[kind]].hex()[:32]}; altered in transit?)")
+            if delivered:
+                ptr[kind] += 1
+            must = both
+            why = ""
+            if kind == "data" and res["dr"][peer] is None:
+                must = False
+            if kind == "rtp":
+                ss = o["ssrc"]
+                newest = max([p["ext"] for p in res["ops"] if p["s"] == s and p["kind"] == "rtp" and p["ssrc"] == ss
+                              and p["status"] == "sent" and order[p["i"]] < order[o["i"]]], default=None)
+                behind = (newest - o["ext"]) if newest is not None else None
+                if o["ext"] in seen.get(ss, set()):
+                    must = False   # a retransmission of an index the receiver has delivered: libsrtp's replay protection may drop it
+                if o["hold"] and ss in hi and hi[ss] - o["ext"] >= MIN_WINDOW:
+                    must = False   # overtaken in transit by too much
+                why = (f" seq={o['ext'] & 0xFFFF} (extended {o['ext']}) ssrc={ss}" +
+                       (f", {behind} behind the newest sequence number sent on that SSRC" if behind is not None and behind > 0 else ""))
+                if delivered:
+                    seen.setdefault(ss, set()).add(o["ext"])
+                    hi[ss] = max(hi.get(ss, -1), o["ext"])
+            if must and not delivered:
+                return (f"{kind} packet{why} was accepted, encrypted and put on the wire by {s} (op {o['i']}), arrived unaltered, and was "
+                        f"never handed to {peer}'s {'data receiver' if kind == 'data' else kind.upper() + ' handler'} "
+                        f"(delivered so far: {ptr[kind]} of that kind)")
+        for kind in got:
+            if ptr[kind] != len(got[kind]):
+                return (f"{peer} handed {len(got[kind]) - ptr[kind]} {kind} packet(s) to its receivers that {s} did not send in that form "
+                        f"(first: {got[kind][ptr[kind]].hex()[:32]})")
+        # every op that was sent and neither held forever nor refused must have arrived (link sanity)
+        if res["dr"][peer] is not None and res["dr"][peer] != got["data"]:
+            return f"data receiver of {peer} got {res['dr'][peer]!r}, but _handle_data was called with {got['data']!r}"
+        from aiortc.rtp import RtpPacket
+        want_rr = [(p.ssrc, p.sequence_number, bytes(p.payload)) for p in (RtpPacket.parse(x) for x in got["rtp"])]
+        if res["rr"][peer]["rtp"] != want_rr:
+            return f"RTP receiver of {peer} did not get exactly the RTP packets that passed SRTP (sent by {s})"
+        if res["rr"][peer]["rtcp"] != len(got["rtcp"]):
+            return f"RTP receiver of {peer} got {res['rr'][peer]['rtcp']} RTCP packets, expected {len(got['rtcp'])}"
+        return None
+
+    def _oracle_conn(self, case, res):
         M = _M()
-        names_now = self._names()
-        cert, fps = res["cert"], res["fps"]
-        dgs = {}
-        import hashlib
-        from cryptography.hazmat.primitives import serialization
-        for s, peer in (("A", "B"), ("B", "A")):
-            der = cert[peer]._cert.public_bytes(serialization.Encoding.DER)
-            dgs[s] = {"sha-256": hashlib.sha256(der).digest(), "sha-384": hashlib.sha384(der).digest(), "sha-512": hashlib.sha512(der).digest()}
-        id_ok = {s: policy_accepts(fps[s], dgs[s]) for s in "AB"}
+        fps = res["fps"]
+        id_ok = {s: policy_accepts(fps[s], res["dgs"][s]) for s in "AB"}
         common = [p for p in case["profA"] if p in case["profB"]]
         for s in "AB":
             peer = "B" if s == "A" else "A"
             want = "connected" if (id_ok[s] and common) else "failed"
             got = res["state"][s]
             if got != want:
-                return (f"side {s} (fingerprints {'matching' if id_ok[s] else 'NOT matching'} the peer certificate, common SRTP "
-                        f"profiles {common}) ended start() in state {got!r}, expected {want!r}")
-            obs = res["rec"][s].obs
+                return (f"side {s} (signalled fingerprints {fps[s]!r} {'matching' if id_ok[s] else 'NOT matching'} the certificate the peer "
+                        f"presented, common SRTP profiles {common}) ended start() in state {got!r}, expected {want!r}")
+            obs = res["obs"][s]
             delivered = [o for o in obs if o.startswith(("dd:", "drtp:", "drtcp:"))]
             if want == "failed":
-                if delivered or (res["dr"][s] or []) or res["rr"][s].rtp or res["rr"][s].rtcp:
+                if delivered or (res["dr"][s] or []) or res["rr"][s]["rtp"] or res["rr"][s]["rtcp"]:
                     return f"side {s} failed the identity/SRTP checks but delivered {delivered[:3]} to its receivers"
                 if res["keys"][s] is not None:
                     return f"side {s} failed but SRTP sessions were keyed"
@@ -1246,7 +1849,8 @@ class Pair(Component):
                     return f"side {s} failed but sent application data / SRTP"
                 if res["final"][s] != "failed":
                     return f"side {s}: FAILED is not terminal (final state {res['final'][s]!r})"
-        if all(res["state"][s] == "connected" for s in "AB"):
+        both = all(res["state"][s] == "connected" for s in "AB")
+        if both:
             ka, kb = res["keys"]["A"], res["keys"]["B"]
             if ka is None or kb is None:
                 return "connected without SRTP keys"
@@ -1257,53 +1861,79 @@ class Pair(Component):
             p = [q for q in M.SRTP_PROFILES if q.openssl_profile.decode() == ka[0]][0]
             if len(ka[1]) != p.key_length + p.salt_length or ka[1] == ka[2]:
                 return f"SRTP key has length {len(ka[1])} or tx == rx for profile {ka[0]}"
-            if not (res["hs"]["A"] and res["hs"]["B"] and res["hs"]["A"]["mat"] == res["hs"]["B"]["mat"]):
+            if not (res["mat"]["A"] and res["mat"]["B"] and res["mat"]["A"] == res["mat"]["B"]):
                 return "exporter output differs between the two sides"
-        # delivered / discarded
+        # delivered / discarded, per packet
         for s, peer in (("A", "B"), ("B", "A")):
-            both = all(res["state"][x] == "connected" for x in "AB")
-            exp = {"data": [], "rtp": [], "rtcp": []}
-            for kind, payload, altered in res["sent"][s]:
-                if both and not altered:
-                    exp[kind].append(payload)
-            obs = res["rec"][peer].obs
-            got = {"data": [bytes.fromhex(o[3:]) for o in obs if o.startswith("dd:")],
-                   "rtp": [bytes.fromhex(o[5:]) for o in obs if o.startswith("drtp:")],
-                   "rtcp": [bytes.fromhex(o[6:]) for o in obs if o.startswith("drtcp:")]}
-            if res["dr"][peer] is None:
-                exp["data"] = []
-            for kind in exp:
-                if got[kind] != exp[kind]:
-                    return (f"{kind} sent by {s}: peer {peer} received {[g.hex()[:24] for g in got[kind]]}, expected exactly the unaltered "
-                            f"packets {[e.hex()[:24] for e in exp[kind]]} (altered ones discarded)")
-            if res["dr"][peer] is not None and res["dr"][peer] != exp["data"]:
-                return f"data receiver of {peer} got {res['dr'][peer]!r}, expected {exp['data']!r}"
-            rtp_payloads = [bytes(p.payload) for p in res["rr"][peer].rtp]
-            from aiortc.rtp import RtpPacket
-            if rtp_payloads != [bytes(RtpPacket.parse(e).payload) for e in exp["rtp"]]:
-                return f"RTP receiver of {peer} did not get exactly the unaltered RTP packets sent by {s}"
-            if len(res["rr"][peer].rtcp) != len(exp["rtcp"]):
-                return f"RTP receiver of {peer} got {len(res['rr'][peer].rtcp)} RTCP packets, expected {len(exp['rtcp'])}"
+            msg = self._expected_flow(res, s, peer, both)
+            if msg:
+                return msg
         # sends are refused unless connected
         for s in "AB":
-            n_ref = sum(1 for o in res["rec"][s].obs if o == "refused")
-            n_ops = sum(1 for op in case["traffic"] if op[1] == s)
-            if res["state"][s] != "connected" and n_ref != n_ops:
-                return f"side {s} is {res['state'][s]} but accepted {n_ops - n_ref} send(s)"
+            mine = [o for o in res["ops"] if o["s"] == s]
+            if res["state"][s] != "connected" and any(o["status"] != "refused" for o in mine):
+                return f"side {s} is {res['state'][s]} but accepted {sum(1 for o in mine if o['status'] != 'refused')} send(s)"
+            for o in mine:
+                if o["status"].startswith("raised:"):
+                    return f"{o['kind']} send of side {s} (op {o['i']}) raised {o['status'][7:]}"
         return None
 
     def label(self, case, impl_out):
-        res = self._summary.get(case_key(case) + impl_out)
-        if res is None:
-            return "exc"
-        flips = sum(1 for op in case["traffic"] if len(op) > 3)
-        return f"{res['state']['A']}/{res['state']['B']}-roles:{case['roles'][0][:1]}{case['roles'][1][:1]}-" + \
-               (res["keys"]["A"][0] if res["keys"]["A"] else "nokeys") + ("-flips" if flips else "")
+        results = self._summary.get(case_key(case) + impl_out)
+        if not results:
+            return "cannot-drive" if impl_out.startswith("HARNESS-EXC") else "exc"
+        res = results[-1]
+        ops = res["ops"]
+        tags = []
+        if any(o["altered"] for o in ops):
+            tags.append("flips")
+        rtp = [o for o in ops if o["kind"] == "rtp" and o["status"] != "refused"]
+        back = 0
+        newest = {}
+        for o in rtp:
+            key = (o["s"], o["ssrc"])
+            if key in newest:
+                back = max(back, newest[key] - o["ext"])
+            if o["status"] == "sent":
+                newest[key] = max(newest.get(key, -1), o["ext"])
+        if back > 0:
+            tags.append("back<128" if back < 128 else "back<1024" if back < 1024 else "back>=1024")
+        if any(o["status"] == "txerr" for o in ops):
+            tags.append("txrefused")
+        if any(o["hold"] for o in ops):
+            tags.append("held")
+        if len({(o["s"], o["ssrc"]) for o in rtp}) > 2:
+            tags.append("multissrc")
+        if any(o["ext"] >= 65536 for o in rtp):
+            tags.append("wrap")
+        pre = ""
+        if len(results) > 1:
+            twins = {frozenset((a, b)) for a, b, _ in _pool()["twins"]}
+            tw = any(frozenset((r["cert"]["B"], res["cert"]["B"])) in twins for r in results[:-1])
+            pre = "after-twin:" if tw else "after-conn:"
+        return (f"{pre}{res['state']['A']}/{res['state']['B']}-roles:{case['roles'][0][:1]}{case['roles'][1][:1]}-" +
+                (res["keys"]["A"][0] if res["keys"]["A"] else "nokeys") + ("-" + "+".join(tags) if tags else ""))
 
-    def shrink(self, case):
+    def _shrink(self, case):
+        if case.get("pre"):
+            yield {k: v for k, v in case.items() if k != "pre"}
+            for i in range(len(case["pre"])):
+                if len(case["pre"]) > 1:
+                    yield dict(case, pre=case["pre"][:i] + case["pre"][i + 1:])
+            for i, p in enumerate(case["pre"]):
+                if p["traffic"]:
+                    yield dict(case, pre=case["pre"][:i] + [dict(p, traffic=[])] + case["pre"][i + 1:])
         tr = case["traffic"]
+        if len(tr) > 6:
+            yield dict(case, traffic=tr[: len(tr) // 2])
+            yield dict(case, traffic=tr[len(tr) // 2:])
         for i in range(len(tr)):
             yield dict(case, traffic=tr[:i] + tr[i + 1:])
+        for i, op in enumerate(tr):
+            if isinstance(op, dict) and (op.get("hold") or op.get("flip") is not None):
+                yield dict(case, traffic=tr[:i] + [{k: v for k, v in op.items() if k not in ("hold", "flip")}] + tr[i + 1:])
+            if isinstance(op, dict) and len(op.get("pl", "")) > 2:
+                yield dict(case, traffic=tr[:i] + [dict(op, pl=op["pl"][:2])] + tr[i + 1:])
         for s in ("profA", "profB"):
             for i in range(len(case[s])):
                 if len(case[s]) > 1:
@@ -1328,7 +1958,9 @@ async def _run_intruder(case):
     st = {"sent": 0}
     cv, cx = Conn(qa, qb, st), Conn(qb, qa, {"sent": 0})
     certs = _certs()
-    victim_cert, intruder_cert, signalled = certs[0], certs[1], certs[2] if not case["good"] else certs[1]
+    vi, ii = case.get("victim_cert", 0), case.get("intruder_cert", 1)
+    si = ii if case["good"] else case.get("signalled_cert", 2)
+    victim_cert, intruder_cert = certs[vi], certs[ii]
     ice = Ice(cv, "controlling")
     t = M.RTCDtlsTransport(ice, [victim_cert])
     t._set_role(case["victim_role"])
@@ -1371,11 +2003,12 @@ async def _run_intruder(case):
                 await cx.send(out)
             ssl.bio_write(await cx.recv())
 
-    fps = build_fps([["sha-256", "ok", "upper"]], signalled, certs[0])
+    fps = build_fps([["sha-256", "ok", "upper"]], si, vi)
     rec.ev.append(f"S~1~{enc_fps(fps)}")
     rec.phase = "hs"
 
     async def start():
+        _CUR_REC.set(rec)
         try:
             await t.start(M.RTCDtlsParameters(fingerprints=[M.RTCDtlsFingerprint(algorithm=a, value=v) for a, v in fps]))
         except Exception as exc:
@@ -1389,7 +2022,7 @@ async def _run_intruder(case):
     await t.stop()
     for _ in range(5):
         await asyncio.sleep(0)
-    return {"rec": rec, "state": state, "final": t.state, "data": dr.data}
+    return {"ev": rec.ev, "obs": rec.obs, "state": state, "final": t.state, "data": list(dr.data)}
 
 
 class Intruder(Pair):
@@ -1397,61 +2030,269 @@ class Intruder(Pair):
     theorems = ["delivery_only_if_validated", "failed_silent", "connected_only_if"]
 
     def corpus(self):
-        return [{"victim_role": "client", "coalesce": True, "good": False, "payload": "4556494c"}]
+        out = [{"victim_role": "client", "coalesce": True, "good": False, "payload": "4556494c"}]
+        # the intruder's certificate copies the serial number (…) of the signalled one, which this process has just accepted
+        for a, b, _ in _pool()["twins"]:
+            out.append({"victim_role": "client", "coalesce": True, "good": False, "payload": "4556494c", "victim_cert": 2 if 2 not in (a, b) else 0,
+                        "intruder_cert": b, "signalled_cert": a,
+                        "pre": [{"victim_role": "client", "coalesce": False, "good": True, "payload": "01", "victim_cert": 2 if 2 not in (a, b) else 0,
+                                 "intruder_cert": a}]})
+        return out
 
     def cases(self, rng, tier):
         out = []
         n = 4 if tier == "quick" else 40
+        twins = [(a, b) for a, b, _ in _pool()["twins"]]
         for role in ("client", "server"):
             for co in (True, False):
                 for good in (False, True):
                     for _ in range(1 if tier == "quick" else n):
                         out.append({"victim_role": role, "coalesce": co, "good": good, "n": len(out),
                                     "payload": bytes(rng.randrange(256) for _ in range(rng.choice([1, 4, 100]))).hex()})
+                for _ in range(2 if tier == "quick" else n):
+                    a, b = rng.choice(twins)
+                    if rng.random() < 0.5:
+                        a, b = b, a
+                    v = 2 if 2 not in (a, b) else 0
+                    out.append({"victim_role": role, "coalesce": co, "good": False, "n": len(out), "victim_cert": v, "intruder_cert": b,
+                                "signalled_cert": a, "payload": bytes(rng.randrange(256) for _ in range(rng.choice([1, 4, 100]))).hex(),
+                                "pre": [{"victim_role": rng.choice(["client", "server"]), "coalesce": False, "good": True, "payload": "01",
+                                         "victim_cert": v, "intruder_cert": a}]})
         return out
 
-    def _execute(self, case):
-        loop = asyncio.new_event_loop()
-        try:
-            res = loop.run_until_complete(_run_intruder(case))
-        finally:
-            try:
-                for task in asyncio.all_tasks(loop):
-                    task.cancel()
-                loop.run_until_complete(asyncio.sleep(0))
-            except Exception:
-                pass
-            loop.close()
-        r = res["rec"]
-        line = f"dtls trace {','.join(self._names())}/1/{case['victim_role']}/{';'.join(r.ev)}"
-        out = ",".join(r.obs + ["final:" + res["final"]])
-        self._summary[case_key(case) + out] = res
-        return line, out
+    def _run_local_inner(self, case):
+        results = [_run_loop(_run_intruder, c) for c in self._conns(case)]
+        line = "dtls trace " + " ".join(f"{','.join(self._names())}/1/{c['victim_role']}/{';'.join(r['ev'])}"
+                                        for c, r in zip(self._conns(case), results))
+        out = " | ".join(",".join(r["obs"] + ["final:" + r["final"]]) for r in results)
+        return {"line": line, "out": out, "results": results}
 
-    def oracle(self, case, impl_out):
-        res = self._summary.get(case_key(case) + impl_out)
-        if res is None:
-            return "intruder run failed: " + impl_out if impl_out.startswith("HARNESS-EXC") else None
-        want = "connected" if case["good"] else "failed"
-        if res["state"] != want:
-            return f"victim ({case['victim_role']}) ended in {res['state']!r} against a peer whose certificate is {'the' if case['good'] else 'NOT the'} signalled one"
-        if not case["good"] and res["data"]:
-            return (f"victim ({case['victim_role']}) handed {res['data'][0].hex()} from a peer with a non-signalled certificate to its data "
-                    f"receiver (before the fingerprint check) and then failed")
+    def _oracle_raw(self, case, impl_out):
+        results = self._summary.get(case_key(case) + impl_out)
+        if results is None:
+            return ("the victim transport raised " + impl_out[6:]) if impl_out.startswith("crash:") else None
+        conns = self._conns(case)
+        for n, (c, res) in enumerate(zip(conns, results)):
+            ctx = "" if len(conns) == 1 else f"connection {n + 1} of {len(conns)} in this process: "
+            want = "connected" if c["good"] else "failed"
+            who = ("the signalled one" if c["good"] else
+                   f"NOT the signalled one (presented {_describe_cert(c.get('intruder_cert', 1))}, signalled {_describe_cert(c.get('signalled_cert', 2))})")
+            if res["state"] != want:
+                return f"{ctx}victim ({c['victim_role']}) ended in {res['state']!r} against a peer whose certificate is {who}"
+            if not c["good"] and res["data"]:
+                return (f"{ctx}victim ({c['victim_role']}) handed {res['data'][0].hex()} from a peer with a non-signalled certificate to its data "
+                        f"receiver (before the fingerprint check) and then failed")
         return None
 
     def label(self, case, impl_out):
-        res = self._summary.get(case_key(case) + impl_out)
-        return f"{case['victim_role']}-{'coalesced' if case['coalesce'] else 'separate'}-{'good' if case['good'] else 'bad'}cert-" + \
-               (res["state"] if res else "exc") + ("-delivered" if res and res["data"] else "")
+        results = self._summary.get(case_key(case) + impl_out)
+        res = results[-1] if results else None
+        return (("after-legit-twin-" if case.get("pre") else "") +
+                f"{case['victim_role']}-{'coalesced' if case['coalesce'] else 'separate'}-{'good' if case['good'] else 'bad'}cert-" +
+                (res["state"] if res else "exc") + ("-delivered" if res and res["data"] else ""))
 
-    def shrink(self, case):
+    def _shrink(self, case):
+        if case.get("pre"):
+            yield {k: v for k, v in case.items() if k != "pre"}
         if case["payload"] != "00":
             yield dict(case, payload="00")
 
 
+# ----------------------------------------------------------------------------------------------
+# component 5: the two libsrtp sessions that the real `_setup_srtp` creates, long RTP sequences, vs the window model
+# ----------------------------------------------------------------------------------------------
+
+def _srtp_err(exc) -> str:
+    m = str(exc).lower()
+    if "too old" in m:
+        return "O"
+    if "bad index" in m or "replay" in m:
+        return "R"
+    if "auth" in m:
+        return "A"
+    return "E:" + m.replace(" ", "_")[:40]
+
+
+class SrtpWindow(Component):
+    """Real `_setup_srtp` on the two ends of a real completed DTLS handshake (pool connection, one per profile, either end as
+    sender) → the real libsrtp sessions; then a generated sequence of RTP packets (several SSRCs, re-ordering, backward jumps
+    of every size around the window edges, retransmissions, in-transit damage, 16-bit wrap-around) goes sender.protect →
+    receiver.unprotect. Per packet: T (sender refused), D (delivered intact), A/R/O (dropped by the receiver: authentication /
+    replay / too old). Model: `Link.run` with the window sizes read from the real Policy objects."""
+    name = "srtp"
+    theorems = ["window_no_silent_loss", "send_not_rxOld", "send_rxReplay_seen", "send_rx_seen", "keys_mirror"]
+
+    def corpus(self):
+        burst = [[0, 3000, 0], [0, 3001, 0], [0, 3001 - 127, 0], [0, 3001 - 128, 0], [0, 3001 - 129, 0], [0, 3001 - 1023, 0],
+                 [0, 3001 - 1024, 0], [0, 3001 - 500, 0], [0, 3001 - 500, 0], [0, 3002, 1], [0, 3002, 0], [1, 65000, 0], [1, 65536 + 700, 0],
+                 [1, 65536 + 700 - 1023, 0], [1, 65535, 0]]
+        return [{"hs": h, "sender": snd, "pkts": burst} for h in range(3) for snd in ("client", "server")]
+
+    def cases(self, rng, tier):
+        n = 150 if tier == "quick" else 3000
+        out = []
+        nh = len(_pool()["certs"])
+        for i in range(n):
+            pkts = []
+            streams = {}
+            for _ in range(rng.choice([20, 40, 80, 200] if tier == "quick" else [40, 200, 600, 2000])):
+                k = rng.choice([0, 0, 0, 1, 2])
+                st = streams.get(k)
+                alt = 0
+                if st is None:
+                    ext = rng.choice([0, 1, 1023, 1024, 5000, 32767, 32768, 40000, 65000, 65535])
+                    streams[k] = st = {"hi": ext, "sent": []}
+                else:
+                    m = rng.random()
+                    hi = st["hi"]
+                    if m < 0.45:
+                        ext = hi + 1
+                    elif m < 0.6:
+                        ext = hi + rng.choice([2, 5, 127, 128, 129, 1023, 1024, 1025, 3000])
+                    elif m < 0.7 and st["sent"]:
+                        ext = rng.choice(st["sent"][-50:])
+                    else:
+                        d = rng.choice([1, 2, 64, 126, 127, 128, 129, 130, 512, 1022, 1023, 1024, 1025, 2000, rng.randrange(1, 1100)])
+                        ext = hi - d if hi - d >= 0 else hi + 1100
+                    alt = 1 if rng.random() < 0.1 else 0
+                st["hi"] = max(st["hi"], ext)
+                st["sent"].append(ext)
+                pkts.append([k, ext, alt])
+            out.append({"hs": i % nh, "sender": rng.choice(["client", "server"]), "pkts": pkts, "n": i})
+        return out
+
+    def _sessions(self, case):
+        """(tx session of the sender, rx session of the receiver, (tx policy window, rx policy window) or None)."""
+        from harness import c04pool
+        M = _M()
+        _install_shims()
+        h = c04pool.handshakes(M)[case["hs"] % len(c04pool.handshakes(M))]
+        profs = {p.openssl_profile.decode(): p for p in M.SRTP_PROFILES}
+        ends = {}
+        for role in ("client", "server"):
+            made = []
+            _SINK.append(made)
+            try:
+                t = M.RTCDtlsTransport(DummyIce(), [_pool()["certs"][h[role + "_cert"]]["rtc"]])
+                t._ssl = h[role]
+                t._set_role(role)
+                t._srtp_profiles = [profs[h["profile"]]]
+                t._setup_srtp()
+            finally:
+                _SINK.pop()
+            ends[role] = sessions_by_direction(made)
+        tx = ends[case["sender"]][0]
+        rx = ends["server" if case["sender"] == "client" else "client"][1]
+        if tx is None or rx is None:
+            raise HarnessCannotDrive("no sending/receiving session captured")
+        win = None
+        if getattr(tx, "policy_window", None) and getattr(rx, "policy_window", None):
+            win = (tx.policy_window, rx.policy_window)
+        return tx, rx, win
+
+    def _run(self, case):
+        import pylibsrtp
+        try:
+            tx, rx, win = self._sessions(case)
+            protect, unprotect = tx.protect, rx.unprotect
+        except Exception as exc:
+            if _raised_in_harness(exc):
+                return "HARNESS-EXC cannot drive the implementation: " + type(exc).__name__ + ": " + str(exc)[:120], None
+            return "crash:" + type(exc).__name__, None
+        outs = []
+        for k, ext, alt in case["pkts"]:
+            plain = make_rtp(ext, b"p%d" % ext, SSRCS["A"][k % 3], pt=96)
+            try:
+                wire = protect(plain)
+            except pylibsrtp.Error:
+                outs.append("T")
+                continue
+            if alt:
+                i = 12 + (ext * 7 + k) % (len(wire) - 12)
+                wire = wire[:i] + bytes([wire[i] ^ (1 << (ext % 8))]) + wire[i + 1:]
+            try:
+                got = unprotect(wire)
+                outs.append("D" if got == plain else "X")
+            except pylibsrtp.Error as exc:
+                outs.append(_srtp_err(exc))
+        return ",".join(outs) or "-", win
+
+    def impl(self, case):
+        return self._run(case)[0]
+
+    def model_line(self, case):
+        if "win" not in case.get("_c", {}):
+            try:
+                _, _, win = self._sessions(case)
+            except Exception:
+                win = None
+            case.setdefault("_c", {})["win"] = win
+        win = case["_c"]["win"]
+        if win is None:
+            return None
+        (wtx, rep), (wrx, _) = win
+        pk = ",".join(f"{k}:{ext}:{alt}" for k, ext, alt in case["pkts"])
+        return f"dtls window {wtx} {wrx} {'1' if rep else '0'} {pk or '-'}"
+
+    def oracle(self, case, impl_out):
+        if impl_out.startswith("HARNESS-EXC"):
+            return None
+        if impl_out.startswith("crash:"):
+            return "_setup_srtp on a completed handshake raised " + impl_out[6:]
+        outs = impl_out.split(",") if impl_out != "-" else []
+        if len(outs) != len(case["pkts"]):
+            return f"{len(case['pkts'])} packets, {len(outs)} outcomes"
+        seen, newest = {}, {}
+        for n, ((k, ext, alt), o) in enumerate(zip(case["pkts"], outs)):
+            behind = newest[k] - ext if k in newest else None
+            where = (f"packet {n + 1}: seq={ext & 0xFFFF} (extended {ext}) on SSRC #{k}" +
+                     (f", {behind} behind the newest one sent" if behind is not None and behind > 0 else ""))
+            if o == "T":
+                continue                       # refused by the sender: visible, not a loss
+            newest[k] = max(newest.get(k, -1), ext)
+            if o == "D":
+                if alt:
+                    return f"{where}: altered in transit but delivered"
+                seen.setdefault(k, set()).add(ext)
+                continue
+            if o == "X":
+                return f"{where}: delivered with different content"
+            if alt:
+                continue
+            if ext in seen.get(k, set()):
+                continue                       # replay of a delivered index
+            return (f"{where}: encrypted by the sending session ({case['sender']}), unaltered, not a repeat of a delivered packet — "
+                    f"dropped by the receiving session ({'index too old' if o == 'O' else o})")
+        return None
+
+    def label(self, case, impl_out):
+        if impl_out.startswith(("HARNESS-EXC", "crash:")):
+            return impl_out.split(" ")[0]
+        kinds = "".join(sorted(set(impl_out.replace(",", ""))))
+        return f"{case['sender']}-hs{case['hs'] % 3}-{kinds}"
+
+    def shrink(self, case):
+        pk = case["pkts"]
+        base = {k: v for k, v in case.items() if k != "_c"}
+        if len(pk) > 4:
+            yield dict(base, pkts=pk[: len(pk) // 2])
+            yield dict(base, pkts=pk[len(pk) // 2:])
+        for i in range(len(pk)):
+            yield dict(base, pkts=pk[:i] + pk[i + 1:])
+        for i, (k, ext, alt) in enumerate(pk):
+            if alt:
+                yield dict(base, pkts=pk[:i] + [[k, ext, 0]] + pk[i + 1:])
+
+
+class _KeysFirst(KeysComp):
+    def impl_many(self, cases):
+        _ensure_zygote()
+        return KeysComp.impl_many(self, cases)
+
+
 def components(tier):
-    return [Identity(), KeysComp(), Pair(), Intruder()]
+    # order = order in which failures are reported: the end-to-end components before the function-level configuration checks
+    return [Identity(), Pair(), Intruder(), SrtpWindow(), _KeysFirst()]
 
 
 def classify_finding(finding, comp_name, case, what):
